@@ -1,28 +1,24 @@
-(** C03 — GROUNDWORK (no main theorem yet, not used by Properties_C03.v) for compile_correct with ASSIGNMENTS, BOXES,
-    INTERNAL DEFINES, CLOSURES AND CALLS TOGETHER.  What is here is proved (nothing is assumed): the fragment [fragA], the
-    world-indexed value relation [vrelW] (nested inductive), world extension [wext] with reflexivity / transitivity,
-    monotonicity of [vrelW] / [varrel] / [fvrelW] / [vec_ok] along [wext], and the stack-slot lemmas (sget / sset /
-    below) that the entry code (PUSH undef per local, then LOCAL-REF; PUSH name; CONS; LOCAL-SET per sv variable) needs.
-
-    PLAN for the next step (see notes/C03.md "round 2", hand-over):
-      WINV W      := wbounds W /\ (forall loc bx, wb W loc = Some bx -> exists nm v w, heap[bx] = HPair nm v /\
-                     cells[loc] = w /\ vrelW W v w) /\ wb injective
-      env_okA     := per frame variable x: SPEC location loc, slot k, slot value v, [varrel W (x, Local id) loc v];
-                     the closure vector represents fv ([fvrelW]); globals related
-      simA_at f e := eval f e env st = SVal v st' -> code at (pre, post) in s, W.heap = heap s, W.cells = cells st,
-                     WINV W, env_okA ->  exists W' v', wext W W' /\ W'.cells = cells st' /\ WINV W' /\ vrelW W' v' v /\
-                     (falls through with v' pushed and heap W'.heap  \/  returned after a TAIL-CALL)
-      new lemmas  : box_loop (the boxing loop over sv, using param_index_injective_in_frame for distinct slots),
-                    enter_frame (make_call_fixed; PUSH undef; box_loop => fresh boxes, wb extended, env_okA for the callee),
-                    set_box (SET-CDR on a box = cell_set on its location: wext, WINV re-established by injectivity),
-                    the SimClos lemmas (fetch_var, fill_loop, call_closedF) re-done over worlds.
+(** C03 — compile_correct with ASSIGNMENTS, BOXES, INTERNAL DEFINES, CLOSURES AND CALLS TOGETHER.
 
     Fragment [fragA] (fixed-arity lambdas): literals, global references, references to variables of the current
     frame (parameters and internal defines) and to free variables listed in the current lambda's fv, set! of such
-    variables when they are in their owner's sv list (boxed), if, begin, the inlined opcodes except eq?, lambda
-    expressions with parameters, internal defines (locals), sv = the global assignment table, any fetchable fv list,
-    applications (CALL / TAIL-CALL).  This is the language of named let, letrec, internal defines, counters ...
-    Not included: rest parameters (SimRest.v / SimClos.v), set! of globals (SimBoxes.v), eq? on pairs, errors. *)
+    variables (they are in their owner's sv list, i.e. boxed), if, begin (incl. generate_drop_prev's rewind after a
+    non-final set!), the inlined opcodes except eq?, lambda expressions with parameters, internal defines (locals),
+    sv = the global assignment table SV, any fetchable fv list, applications (CALL / TAIL-CALL).  This is the language
+    of named let, letrec, internal defines, do loops, counters.  Not included here: rest parameters (SimRest.v /
+    SimClos.v), set! of globals (SimBoxes.v), eq? on pairs, error outcomes.
+
+    Boxes are shared between frames and closure vectors and are mutated, SPEC locations are assigned: the simulation
+    relation is indexed by a WORLD (heap, SPEC cells, partial injection location -> box address):
+      vrelW W      values: literals, pairs (cells that are not boxes), closures (per free variable: a boxed one is
+                   related by the link location <-> box only, an unboxed one by value) -- nested inductive
+      wext W W'    only box contents / boxed locations change, new cells and new boxes are fresh; refl, trans,
+                   every relation is monotone along it
+      WINV W       every box holds a value representing the content of its location; wb is injective; bounds
+      env_okA      frame slots (varrel), the closure vector (fvrelW), globals
+    Entry code of a procedure (PUSH undef per local; LOCAL-REF, PUSH name, CONS, LOCAL-SET per sv variable): [box_loop]
+    (distinct slots by param_index_injective), world [wenter] ([wenter_ext], [wenter_INV]); assignment = [wset];
+    allocation of pairs / vectors = [walloc].  Main theorem [simA_all] by strong induction on the SPEC's fuel. *)
 From Coq Require Import ZArith List Bool Arith Lia.
 From ChibiV Require Import C03.Defs C03.Model C03.Spec C03.Proofs C03.Simulation C03.SimCalls C03.SimBoxes C03.SimRest C03.SimClos.
 Import ListNotations.
@@ -85,7 +81,7 @@ Section Full.
     | Seq es => match es with [] => false | _ :: _ => forallb (fragA cur) es end
     | OpApp p args => pure_prim p && Nat.eqb (length args) (prim_arity p) && forallb (fragA cur) args
     | Lam id ps None ls sv fv b =>
-        nodupb (ps ++ ls) && names_eqb sv (SV id) && forallb (fun x => memn x (ps ++ ls)) sv
+        nodupb (ps ++ ls) && names_eqb sv (SV id) && nodupb sv && forallb (fun x => memn x (ps ++ ls)) sv
         && fv_okA cur id fv && fragA (Some (id, ps, ls, fv)) b
     | Lam _ _ (Some _) _ _ _ _ => false
     | App f args => fragA cur f && forallb (fragA cur) args
@@ -111,6 +107,7 @@ Section Full.
       vrelW W (VPair a) (SPair x y)
   | VW_clo : forall id ps ls b cenv fv svs' vars els,
       nodupb (ps ++ ls) = true ->
+      nodupb (SV id) = true ->
       forallb (fun x => memn x (ps ++ ls)) (SV id) = true ->
       fragA (Some (id, ps, ls, fv)) b = true ->
       agrees svs' ->
@@ -191,7 +188,7 @@ Section Full.
   Lemma vrelW_mono : forall W W', wbounds W -> wext W W' -> forall v w, vrelW W v w -> vrelW W' v w.
   Proof.
     intros W W' HB HE. pose proof HE as (L1 & H2 & L3 & H4 & H5 & H6). fix IH 3. intros v w H.
-    destruct H as [l | a vx vy x y Hn Hnb H1 H2' | id ps ls b cenv fv svs' vars els Hnd Hsvin Hfr Hag Hown Hvec HF].
+    destruct H as [l | a vx vy x y Hn Hnb H1 H2' | id ps ls b cenv fv svs' vars els Hnd Hndsv Hsvin Hfr Hag Hown Hvec HF].
     - constructor.
     - assert (Ha : a < length (wh W)) by (apply nth_error_Some; congruence).
       econstructor; eauto. + rewrite H2; auto. + eapply not_box_mono; eauto.
@@ -271,4 +268,1539 @@ Section Full.
     step s = Next (upd s (VPair (length (heap s)) :: r) (S (ip s)) (heap s ++ [HPair a d])).
   Proof. intros s pre post a d r H Hs. unfold step. rewrite (fetch _ _ _ _ H), Hs. reflexivity. Qed.
 
+
+  (* ---------------------------------------------------------------- invariants *)
+
+  Definition WINV (W : world) : Prop :=
+    wbounds W /\
+    (forall loc bx, wb W loc = Some bx ->
+       exists nm v w, nth_error (wh W) bx = Some (HPair nm v) /\ nth_error (wc W) loc = Some w /\ vrelW W v w) /\
+    (forall l1 l2 b, wb W l1 = Some b -> wb W l2 = Some b -> l1 = l2).
+
+  (** frame / closure-vector / globals relation for the procedure being executed *)
+  Definition env_okA (cur : fctxA) (env : senv) (sg : list (nat * sval)) (W : world) (s : state) : Prop :=
+    (forall id ps ls fv, cur = Some (id, ps, ls, fv) -> forall x, memn x (ps ++ ls) = true ->
+       exists loc k v, env_lookup (x, Local id) env = Some loc /\
+                       slot (fp s) (param_index ps None ls x) = Some k /\ sget (stk s) k = Some v /\
+                       varrel W (x, Local id) loc v)
+    /\ (forall id ps ls fv, cur = Some (id, ps, ls, fv) ->
+          exists els, vec_ok W fv (vars_of (self s)) els /\ fvrelW W env fv els)
+    /\ (forall g w, glob_lookup g sg = Some w -> exists v, assoc_nat g (globals s) = Some v /\ vrelW W v w).
+
+  Lemma env_okA_mono : forall cur env sg W W' s s1 vs,
+    env_okA cur env sg W s -> wbounds W -> wext W W' ->
+    fp s1 = fp s -> self s1 = self s -> globals s1 = globals s -> stk s1 = vs ++ stk s ->
+    env_okA cur env sg W' s1.
+  Proof.
+    intros cur env sg W W' s s1 vs (HP & HV & HG) HB HE Hfp Hself Hgl Hstk. repeat split.
+    - intros id ps ls fv Hc x Hm. destruct (HP id ps ls fv Hc x Hm) as (loc & k & v & Hl & Hs & Hg & Hv).
+      exists loc, k, v. rewrite Hfp, Hstk. repeat split; auto using sget_app. eapply varrel_mono; eauto.
+    - intros id ps ls fv Hc. destruct (HV id ps ls fv Hc) as (els & Hvo & Hfv). exists els. rewrite Hself.
+      split; [eapply vec_ok_mono; eauto | eapply fvrelW_mono; eauto].
+    - intros g w Hg. destruct (HG g w Hg) as (v & Ha & Hv). exists v. rewrite Hgl. split; auto. eapply vrelW_mono; eauto.
+  Qed.
+
+  (* ---------------------------------------------------------------- world updates *)
+
+  (** a new non-box cell (pair, vector) at the end of the heap *)
+  Definition walloc (W : world) (o : hobj) : world := mkW (wh W ++ [o]) (wc W) (wb W).
+
+  Lemma walloc_ext : forall W o, wbounds W -> wext W (walloc W o).
+  Proof.
+    intros W o HB. unfold walloc. repeat split; simpl; auto.
+    - rewrite app_length; lia.
+    - intros a Ha _. apply nth_error_app1; auto.
+    - intros loc bx Hb Hle. destruct (HB loc bx Hb). lia.
+  Qed.
+
+  Lemma walloc_not_box : forall W o, wbounds W -> ~ is_box (walloc W o) (length (wh W)).
+  Proof. intros W o HB [loc Hl]. simpl in Hl. destruct (HB loc _ Hl). lia. Qed.
+
+  Lemma cell_set_length : forall l n x, length (cell_set l n x) = length l.
+  Proof. induction l as [|y r IH]; intros [|n] x; simpl; auto. Qed.
+
+  Lemma WINV_ext_same_b : forall W W', WINV W -> wext W W' -> wb W' = wb W ->
+    length (wc W') = length (wc W) ->
+    (forall l bx, wb W l = Some bx -> nth_error (wh W') bx = nth_error (wh W) bx /\ nth_error (wc W') l = nth_error (wc W) l) ->
+    WINV W'.
+  Proof.
+    intros W W' (HB & HI & HJ) HE Hb Hlc Hsame. pose proof HE as (L1 & _). split; [|split].
+    - intros l bx H. rewrite Hb in H. destruct (HB l bx H). lia.
+    - intros l bx H. rewrite Hb in H. destruct (HI l bx H) as (nm & v & w & H1 & H2 & H3).
+      destruct (Hsame l bx H) as [E1 E2]. exists nm, v, w. rewrite E1, E2. repeat split; auto. eapply vrelW_mono; eauto.
+    - intros l1 l2 b H1 H2. rewrite Hb in H1, H2. eauto.
+  Qed.
+
+  Lemma walloc_INV : forall W o, WINV W -> WINV (walloc W o).
+  Proof.
+    intros W o HI. pose proof HI as (HB & _). eapply WINV_ext_same_b; eauto using walloc_ext.
+    intros l bx Hb. destruct (HB l bx Hb). split; auto. simpl. apply nth_error_app1; auto.
+  Qed.
+
+  (** SET-CDR on the box of location l = assignment to l *)
+  Definition wset (W : world) (l bx : nat) (nm v : value) (w : sval) : world :=
+    mkW (list_set (wh W) bx (HPair nm v)) (cell_set (wc W) l w) (wb W).
+
+  Lemma wset_ext : forall W l bx nm v w, wbounds W -> wb W l = Some bx -> wext W (wset W l bx nm v w).
+  Proof.
+    intros W l bx nm v w HB Hb. unfold wset. split; [|split; [|split; [|split; [|split]]]]; simpl.
+    - rewrite list_set_length; lia.
+    - intros a Ha Hn. apply list_set_other. intro E; subst. apply Hn. exists l; auto.
+    - rewrite cell_set_length; lia.
+    - intros l0 Hl Hn. apply cell_set_other. intro E; subst. congruence.
+    - auto.
+    - intros l0 b Hb' Hle. destruct (HB l0 b Hb'). lia.
+  Qed.
+
+  Lemma wset_INV : forall W l bx nm v w, WINV W -> wb W l = Some bx -> vrelW W v w -> WINV (wset W l bx nm v w).
+  Proof.
+    intros W l bx nm v w (HB & HI & HJ) Hb Hv.
+    assert (HE : wext W (wset W l bx nm v w)) by (apply wset_ext; auto).
+    destruct (HB l bx Hb) as [Hll Hlb].
+    split; [|split].
+    - intros l0 b H. simpl in *. rewrite list_set_length, cell_set_length. apply HB; auto.
+    - intros l0 b H. simpl in H. destruct (Nat.eq_dec l0 l) as [->|Hne].
+      + rewrite Hb in H. inversion H; subst b. exists nm, v, w. simpl. repeat split.
+        * apply list_set_same; auto.
+        * apply cell_set_same; auto.
+        * eapply vrelW_mono; eauto.
+      + destruct (HI l0 b H) as (nm0 & v0 & w0 & H1 & H2 & H3). exists nm0, v0, w0. simpl. repeat split.
+        * rewrite list_set_other; auto. intro E; subst b. apply Hne. eapply HJ; eauto.
+        * rewrite cell_set_other; auto.
+        * eapply vrelW_mono; eauto.
+    - intros l1 l2 b H1 H2. simpl in *. eauto.
+  Qed.
+
+
+  (* ---------------------------------------------------------------- the boxing loop of the entry code *)
+
+  Definition box1 (ps ls : list name) (x : name) : code :=
+    [ILocalRef (param_index ps None ls x); IPush (LSym x); ICons; ILocalSet (param_index ps None ls x)].
+
+  Lemma box_code_cons : forall ps ls x xs, box_code ps None ls (x :: xs) = box1 ps ls x ++ box_code ps None ls xs.
+  Proof. reflexivity. Qed.
+
+  Lemma box_loop : forall ps ls xs s pre post,
+    at_code s pre (box_code ps None ls xs) post ->
+    NoDup xs ->
+    (forall x, In x xs -> exists k v, slot (fp s) (param_index ps None ls x) = Some k /\ sget (stk s) k = Some v) ->
+    (forall x y k, In x xs -> In y xs -> slot (fp s) (param_index ps None ls x) = Some k ->
+                   slot (fp s) (param_index ps None ls y) = Some k -> x = y) ->
+    exists stk' boxes,
+      reaches s (mkst stk' (fp s) (self s) (length pre + length (box_code ps None ls xs)) (heap s ++ boxes) (globals s)) /\
+      length stk' = length (stk s) /\ length boxes = length xs /\
+      (forall k, (forall x, In x xs -> slot (fp s) (param_index ps None ls x) <> Some k) -> sget stk' k = sget (stk s) k) /\
+      (forall m, (forall x k, In x xs -> slot (fp s) (param_index ps None ls x) = Some k -> m <= k) ->
+                 below m stk' = below m (stk s)) /\
+      (forall i x, nth_error xs i = Some x ->
+         exists k v, slot (fp s) (param_index ps None ls x) = Some k /\ sget (stk s) k = Some v /\
+                     sget stk' k = Some (VPair (length (heap s) + i)) /\
+                     nth_error (heap s ++ boxes) (length (heap s) + i) = Some (HPair (VLit (LSym x)) v)).
+  Proof.
+    intros ps ls xs. induction xs as [|x rest IH]; intros s pre post Hat Hnd Hsl Hinj.
+    - exists (stk s), []. destruct Hat as [_ Hip]. simpl. repeat split; auto.
+      + rewrite app_nil_r, Nat.add_0_r, <- Hip. destruct s; apply reaches_refl.
+      + intros i x H. destruct i; discriminate H.
+    - rewrite box_code_cons in *. set (k0 := param_index ps None ls x) in *.
+      set (cr := box_code ps None ls rest) in *.
+      inversion Hnd as [|x' r' Hnotin Hnd']; subst x' r'.
+      destruct (Hsl x (or_introl eq_refl)) as (k & v & Hk & Hv). fold k0 in Hk.
+      destruct Hat as [Hcode Hip]. unfold box1 in Hcode. fold k0 in Hcode.
+      assert (Hat1 : at_code s pre [ILocalRef k0] (([IPush (LSym x); ICons; ILocalSet k0] ++ cr) ++ post)).
+      { split; auto; rewrite Hcode; norm_code. }
+      pose proof (step_local_ref s _ _ _ _ _ Hat1 Hk Hv) as Hst1.
+      set (s1 := upd s (v :: stk s) (S (ip s)) (heap s)) in *.
+      assert (Hat2 : at_code s1 (pre ++ [ILocalRef k0]) [IPush (LSym x)] (([ICons; ILocalSet k0] ++ cr) ++ post)).
+      { split; simpl; [|solve_len]. rewrite Hcode. norm_code. }
+      pose proof (step_push s1 _ _ _ Hat2) as Hst2.
+      set (s2 := upd s1 (VLit (LSym x) :: stk s1) (S (ip s1)) (heap s1)) in *.
+      assert (Hat3 : at_code s2 (pre ++ [ILocalRef k0; IPush (LSym x)]) [ICons] (([ILocalSet k0] ++ cr) ++ post)).
+      { split; simpl; [|solve_len]. rewrite Hcode. norm_code. }
+      pose proof (step_cons s2 _ _ (VLit (LSym x)) v (stk s) Hat3 eq_refl) as Hst3.
+      set (s3 := upd s2 (VPair (length (heap s2)) :: stk s) (S (ip s2)) (heap s2 ++ [HPair (VLit (LSym x)) v])) in *.
+      assert (Hat4 : at_code s3 (pre ++ [ILocalRef k0; IPush (LSym x); ICons]) [ILocalSet k0] (cr ++ post)).
+      { split; simpl; [|solve_len]. rewrite Hcode. norm_code. }
+      assert (Hklt : k < length (stk s)) by (eapply sget_Some_lt; eauto).
+      destruct (sset_some (stk s) k (VPair (length (heap s))) Hklt) as (r' & Hss).
+      pose proof (step_local_set s3 _ _ _ (VPair (length (heap s))) (stk s) k r' Hat4 eq_refl Hk Hss) as Hst4.
+      set (s4 := upd s3 r' (S (ip s3)) (heap s3)) in *.
+      assert (Hat5 : at_code s4 (pre ++ [ILocalRef k0; IPush (LSym x); ICons; ILocalSet k0]) cr post).
+      { split; simpl; [|solve_len]. rewrite Hcode. norm_code. }
+      assert (Hsl4 : forall y, In y rest -> exists ky vy, slot (fp s4) (param_index ps None ls y) = Some ky /\ sget (stk s4) ky = Some vy).
+      { intros y Hy. destruct (Hsl y (or_intror Hy)) as (ky & vy & Hky & Hvy). exists ky, vy. split; auto.
+        simpl. rewrite (sget_sset_other _ _ ky _ _ Hss); auto.
+        intro E; subst ky. assert (y = x) by (eapply (Hinj y x k); simpl; auto). subst y. contradiction. }
+      assert (Hinj4 : forall y z kk, In y rest -> In z rest -> slot (fp s4) (param_index ps None ls y) = Some kk ->
+                                     slot (fp s4) (param_index ps None ls z) = Some kk -> y = z).
+      { intros y z kk Hy Hz. apply Hinj; simpl; auto. }
+      destruct (IH s4 _ post Hat5 Hnd' Hsl4 Hinj4) as (stk' & boxes & Hreach & Hlen & Hlb & Hunch & Hbel & Hbox).
+      fold cr in Hreach.
+      exists stk', (HPair (VLit (LSym x)) v :: boxes).
+      assert (Hheap4 : heap s4 = heap s ++ [HPair (VLit (LSym x)) v]) by reflexivity.
+      split; [|split; [|split; [|split; [|split]]]].
+      + eapply reaches_trans; [apply reaches_step; exact Hst1|].
+        eapply reaches_trans; [apply reaches_step; exact Hst2|].
+        eapply reaches_trans; [apply reaches_step; exact Hst3|].
+        eapply reaches_trans; [apply reaches_step; exact Hst4|].
+        replace (mkst stk' (fp s) (self s) (length pre + length (box1 ps ls x ++ cr)) (heap s ++ HPair (VLit (LSym x)) v :: boxes) (globals s))
+          with (mkst stk' (fp s4) (self s4) (length (pre ++ [ILocalRef k0; IPush (LSym x); ICons; ILocalSet k0]) + length cr)
+                     (heap s4 ++ boxes) (globals s4)); [exact Hreach|].
+        rewrite Hheap4. simpl. f_equal; [solve_len | rewrite <- app_assoc; reflexivity].
+      + rewrite Hlen. simpl. eapply sset_length; eauto.
+      + simpl. lia.
+      + intros kk Hkk. rewrite Hunch.
+        * simpl. apply (sget_sset_other _ _ kk _ _ Hss). intro E; subst kk. apply (Hkk x); simpl; auto.
+        * intros y Hy. apply Hkk. simpl; auto.
+      + intros m Hm. rewrite Hbel.
+        * simpl. eapply below_sset; eauto. apply (Hm x k); simpl; auto.
+        * intros y ky Hy. apply Hm. simpl; auto.
+      + intros i y Hi. destruct i as [|i]; simpl in Hi.
+        * inversion Hi; subst y. exists k, v. repeat split; auto.
+          -- rewrite Hunch. { simpl. rewrite Nat.add_0_r. eapply sget_sset_same; eauto. }
+             intros y Hy E. simpl in E. fold k0 in Hk. assert (y = x) by (eapply (Hinj y x k); simpl; auto). subst y. contradiction.
+          -- rewrite Nat.add_0_r. rewrite nth_error_app2 by lia. rewrite Nat.sub_diag. reflexivity.
+        * destruct (Hbox i y Hi) as (ky & vy & Hky & Hvy & Hvy' & Hhb). exists ky, vy.
+          assert (Hyin : In y rest) by (eapply nth_error_In; eauto).
+          assert (Hne : ky <> k).
+          { intro E; subst ky. assert (y = x) by (eapply (Hinj y x k); simpl; auto). subst y. contradiction. }
+          repeat split; auto.
+          -- simpl in Hvy. rewrite (sget_sset_other _ _ ky _ _ Hss) in Hvy; auto.
+          -- rewrite Hheap4, app_length in Hvy'. simpl in Hvy'. replace (length (heap s) + S i) with (length (heap s) + 1 + i) by lia. exact Hvy'.
+          -- rewrite Hheap4, app_length in Hhb. simpl in Hhb. rewrite <- app_assoc in Hhb. simpl in Hhb.
+             replace (length (heap s) + S i) with (length (heap s) + 1 + i) by lia. exact Hhb.
+  Qed.
+
+
+  (* ---------------------------------------------------------------- entering a frame: the world after the entry code *)
+
+  Lemma index_of_nth : forall x l j, index_of x l = Some j -> nth_error l j = Some x.
+  Proof.
+    intros x l. induction l as [|y r IH]; intros j H; simpl in *; try discriminate.
+    destruct (Nat.eqb y x) eqn:E.
+    - inversion H; subst. apply Nat.eqb_eq in E. subst; reflexivity.
+    - destruct (index_of x r) as [k|]; simpl in H; try discriminate. inversion H; subst. simpl. auto.
+  Qed.
+
+  Lemma nth_index_of_nodup : forall l i x, NoDup l -> nth_error l i = Some x -> index_of x l = Some i.
+  Proof.
+    induction l as [|y r IH]; intros i x Hnd H; destruct i; simpl in *; try discriminate.
+    - inversion H; subst. rewrite Nat.eqb_refl. reflexivity.
+    - inversion Hnd as [|y' r' Hnin Hnd']; subst. destruct (Nat.eqb y x) eqn:E.
+      + apply Nat.eqb_eq in E. subst. exfalso. apply Hnin. eapply nth_error_In; eauto.
+      + rewrite (IH i x Hnd' H). reflexivity.
+  Qed.
+
+  Lemma nodupb_NoDup : forall l, nodupb l = true -> NoDup l.
+  Proof.
+    induction l as [|x r IH]; simpl; intro H; constructor.
+    - apply andb_true_iff in H. destruct H as [H _]. apply negb_true_iff in H. intro Hin.
+      apply memn_In in Hin. congruence.
+    - apply IH. apply andb_true_iff in H. tauto.
+  Qed.
+
+  Definition wbE (W : world) (frame svid : list name) (l : nat) : option nat :=
+    if l <? length (wc W) then wb W l
+    else match nth_error frame (l - length (wc W)) with
+         | Some x => match index_of x svid with Some j => Some (length (wh W) + j) | None => None end
+         | None => None
+         end.
+
+  Definition wenter (W : world) (frame svid : list name) (vals : list sval) (boxes : list hobj) : world :=
+    mkW (wh W ++ boxes) (wc W ++ vals) (wbE W frame svid).
+
+  Lemma wenter_ext : forall W frame svid vals boxes, wbounds W -> wext W (wenter W frame svid vals boxes).
+  Proof.
+    intros W frame svid vals boxes HB. unfold wenter. split; [|split; [|split; [|split; [|split]]]]; simpl.
+    - rewrite app_length; lia.
+    - intros a Ha _. apply nth_error_app1; auto.
+    - rewrite app_length; lia.
+    - intros l Hl _. apply nth_error_app1; auto.
+    - intros l Hl. unfold wbE. apply Nat.ltb_lt in Hl. rewrite Hl. reflexivity.
+    - intros l bx Hb Hle. unfold wbE in Hb. assert (E : (l <? length (wc W)) = false) by (apply Nat.ltb_ge; lia).
+      rewrite E in Hb. destruct (nth_error frame (l - length (wc W))) as [x|]; try discriminate.
+      destruct (index_of x svid) as [j|]; try discriminate. inversion Hb. lia.
+  Qed.
+
+  Lemma index_of_lt : forall x l j, index_of x l = Some j -> j < length l.
+  Proof. intros x l j H. apply index_of_nth in H. apply nth_error_Some. congruence. Qed.
+
+  Lemma wenter_INV : forall W frame svid vals boxes,
+    WINV W -> NoDup frame -> length vals = length frame -> length boxes = length svid ->
+    (forall j x, nth_error svid j = Some x ->
+       exists i v w, index_of x frame = Some i /\ nth_error boxes j = Some (HPair (VLit (LSym x)) v) /\
+                     nth_error vals i = Some w /\ vrelW W v w) ->
+    WINV (wenter W frame svid vals boxes).
+  Proof.
+    intros W frame svid vals boxes (HB & HI & HJ) Hnd Hlv Hlb Hbox.
+    assert (HE : wext W (wenter W frame svid vals boxes)) by (apply wenter_ext; auto).
+    split; [|split].
+    - intros l b H. simpl in *. rewrite !app_length. unfold wbE in H.
+      destruct (l <? length (wc W)) eqn:E.
+      + destruct (HB l b H). lia.
+      + apply Nat.ltb_ge in E. destruct (nth_error frame (l - length (wc W))) as [x|] eqn:En; try discriminate.
+        destruct (index_of x svid) as [j|] eqn:Ej; try discriminate. inversion H; subst b.
+        apply index_of_lt in Ej. assert (l - length (wc W) < length frame) by (apply nth_error_Some; congruence). lia.
+    - intros l b H. simpl in H. unfold wbE in H. destruct (l <? length (wc W)) eqn:E.
+      + destruct (HI l b H) as (nm & v & w & H1 & H2 & H3). destruct (HB l b H).
+        exists nm, v, w. simpl. repeat split.
+        * rewrite nth_error_app1; auto.
+        * rewrite nth_error_app1; auto.
+        * eapply vrelW_mono; eauto.
+      + apply Nat.ltb_ge in E. destruct (nth_error frame (l - length (wc W))) as [x|] eqn:En; try discriminate.
+        destruct (index_of x svid) as [j|] eqn:Ej; try discriminate. inversion H; subst b.
+        destruct (Hbox j x (index_of_nth _ _ _ Ej)) as (i & v & w & Hi & Hbj & Hvi & Hv).
+        rewrite (nth_index_of_nodup _ _ _ Hnd En) in Hi. inversion Hi; subst i.
+        exists (VLit (LSym x)), v, w. simpl. repeat split.
+        * rewrite nth_error_app2 by lia. replace (length (wh W) + j - length (wh W)) with j by lia. exact Hbj.
+        * rewrite nth_error_app2 by lia. exact Hvi.
+        * eapply vrelW_mono; eauto.
+    - intros l1 l2 b H1 H2. simpl in H1, H2. unfold wbE in H1, H2.
+      destruct (l1 <? length (wc W)) eqn:E1; destruct (l2 <? length (wc W)) eqn:E2.
+      + eauto.
+      + exfalso. destruct (HB l1 b H1). destruct (nth_error frame (l2 - length (wc W))) as [x|]; try discriminate.
+        destruct (index_of x svid) as [j|]; try discriminate. inversion H2. lia.
+      + exfalso. destruct (HB l2 b H2). destruct (nth_error frame (l1 - length (wc W))) as [x|]; try discriminate.
+        destruct (index_of x svid) as [j|]; try discriminate. inversion H1. lia.
+      + apply Nat.ltb_ge in E1. apply Nat.ltb_ge in E2.
+        destruct (nth_error frame (l1 - length (wc W))) as [x1|] eqn:En1; try discriminate.
+        destruct (nth_error frame (l2 - length (wc W))) as [x2|] eqn:En2; try discriminate.
+        destruct (index_of x1 svid) as [j1|] eqn:Ej1; try discriminate.
+        destruct (index_of x2 svid) as [j2|] eqn:Ej2; try discriminate.
+        inversion H1; inversion H2. assert (j1 = j2) by lia. subst j2.
+        apply index_of_nth in Ej1. apply index_of_nth in Ej2. rewrite Ej1 in Ej2. inversion Ej2; subst x2.
+        pose proof (nth_index_of_nodup _ _ _ Hnd En1) as I1. pose proof (nth_index_of_nodup _ _ _ Hnd En2) as I2.
+        rewrite I1 in I2. inversion I2. lia.
+  Qed.
+
+
+  (* ---------------------------------------------------------------- the statement *)
+
+  Definition fallH (s : state) (v' : value) (pre c : code) (h' : list hobj) : state :=
+    upd s (v' :: stk s) (length pre + length c) h'.
+
+  Definition retH (s : state) (v' : value) (j rip : nat) (rself : value) (rfp : nat) (h' : list hobj) : state :=
+    mkst (v' :: below (fp s - j) (stk s)) rfp rself rip h' (globals s).
+
+  Definition outcomeH (tl : bool) (s : state) (pre c : code) (v' : value) (h' : list hobj) : Prop :=
+    reaches s (fallH s v' pre c h') \/
+    (tl = true /\ forall j rip rself rfp, frame_info s = Some (j, rip, rself, rfp) -> j <= fp s ->
+       reaches s (retH s v' j rip rself rfp h')).
+
+  Lemma outcomeH_false : forall s pre c v' h', outcomeH false s pre c v' h' -> reaches s (fallH s v' pre c h').
+  Proof. intros s pre c v' h' [H | [H _]]; [exact H | discriminate]. Qed.
+
+  Definition resA (tl : bool) (s : state) (pre c : code) (W : world) (v : sval) (st' : sstore) : Prop :=
+    exists W' v', wext W W' /\ wc W' = cells st' /\ WINV W' /\ vrelW W' v' v /\ outcomeH tl s pre c v' (wh W').
+
+  Definition simA_at (f : nat) (e : ast) : Prop :=
+    forall cur env st v st', fragA cur e = true -> eval f e env st = SVal v st' ->
+    forall tl svs s pre post W, agrees svs ->
+    at_code s pre (generate tl svs (lctxA cur) e) post ->
+    wh W = heap s -> wc W = cells st -> WINV W ->
+    env_okA cur env (sglobals st) W s ->
+    sglobals st' = sglobals st /\ resA tl s pre (generate tl svs (lctxA cur) e) W v st'.
+
+  (** continuing after an intermediate state s2 of the same frame (same stack, fp, self, globals) *)
+  Lemma outcomeH_lift : forall tl s s2 pre pre2 c c2 v' h',
+    reaches s s2 ->
+    stk s2 = stk s -> fp s2 = fp s -> self s2 = self s -> globals s2 = globals s ->
+    reaches (fallH s2 v' pre2 c2 h') (fallH s v' pre c h') ->
+    outcomeH tl s2 pre2 c2 v' h' -> outcomeH tl s pre c v' h'.
+  Proof.
+    intros tl s s2 pre pre2 c c2 v' h' Hr Hs Hf Hse Hg Hcont [Ho | [Htl Ho]].
+    - left. eapply reaches_trans; [exact Hr|]. eapply reaches_trans; [exact Ho|exact Hcont].
+    - right. split; auto. intros j rip rself rfp Hfi Hj.
+      assert (Hfi2 : frame_info s2 = Some (j, rip, rself, rfp)).
+      { eapply (frame_info_app s s2 []); eauto. }
+      rewrite <- Hf in Hj. specialize (Ho j rip rself rfp Hfi2 Hj).
+      eapply reaches_trans; [exact Hr|].
+      replace (retH s v' j rip rself rfp h') with (retH s2 v' j rip rself rfp h'); auto.
+      unfold retH. rewrite Hs, Hf, Hg. reflexivity.
+  Qed.
+
+  Lemma fallH_eq : forall s s2 v' pre pre2 c c2 h',
+    stk s2 = stk s -> fp s2 = fp s -> self s2 = self s -> globals s2 = globals s ->
+    length pre2 + length c2 = length pre + length c ->
+    fallH s2 v' pre2 c2 h' = fallH s v' pre c h'.
+  Proof. intros s s2 v' pre pre2 c c2 h' Hs Hf Hse Hg Hl. unfold fallH, upd. rewrite Hs, Hf, Hse, Hg, Hl. reflexivity. Qed.
+
+  Lemma leafH : forall tl s pre i post v',
+    at_code s pre [i] post -> step s = Next (upd s (v' :: stk s) (S (ip s)) (heap s)) ->
+    outcomeH tl s pre [i] v' (heap s).
+  Proof.
+    intros tl s pre i post v' [_ Hip] Hstep. left. apply reaches_step. rewrite Hstep.
+    unfold fallH, upd. rewrite Hip. simpl. f_equal. f_equal. lia.
+  Qed.
+
+  (* ---------------------------------------------------------------- slots of locals; the header *)
+
+  Lemma param_index_local : forall ps ls x j, index_of x ps = None -> index_of x ls = Some j ->
+    param_index ps None ls x = (- Z.of_nat j - 5)%Z.
+  Proof. intros ps ls x j H1 H2. unfold param_index. rewrite H1, H2. reflexivity. Qed.
+
+  Lemma slot_local : forall n j, slot n (- Z.of_nat j - 5)%Z = Some (n + 4 + j).
+  Proof.
+    intros n j. unfold slot. destruct (Z.ltb_spec (Z.of_nat n - 1 - (- Z.of_nat j - 5)) 0); [lia|]. f_equal. lia.
+  Qed.
+
+  Lemma slot_inj : forall n k1 k2 a, slot n k1 = Some a -> slot n k2 = Some a -> k1 = k2.
+  Proof.
+    unfold slot; intros n k1 k2 a H1 H2.
+    destruct (Z.ltb_spec (Z.of_nat n - 1 - k1) 0); try discriminate.
+    destruct (Z.ltb_spec (Z.of_nat n - 1 - k2) 0); try discriminate.
+    inversion H1; inversion H2. lia.
+  Qed.
+
+  Lemma frame_info_same : forall s s', fp s' = fp s ->
+    (forall t, t < 4 -> sget (stk s') (fp s + t) = sget (stk s) (fp s + t)) -> frame_info s' = frame_info s.
+  Proof.
+    intros s s' Hf H. unfold frame_info. rewrite Hf.
+    pose proof (H 0 ltac:(lia)) as H0. rewrite Nat.add_0_r in H0.
+    rewrite H0, (H 1), (H 2), (H 3) by lia. reflexivity.
+  Qed.
+
+  Lemma push_undefs : forall n s pre post, at_code s pre (repeat (IPush LUndef) n) post ->
+    reaches s (upd s (repeat (VLit LUndef) n ++ stk s) (length pre + n) (heap s)).
+  Proof.
+    induction n as [|n IH]; intros s pre post Hat.
+    - simpl. destruct Hat as [_ Hip]. rewrite Nat.add_0_r, <- Hip. destruct s; apply reaches_refl.
+    - simpl repeat in Hat. destruct Hat as [Hcode Hip].
+      assert (Hat1 : at_code s pre [IPush LUndef] (repeat (IPush LUndef) n ++ post)).
+      { split; auto; rewrite Hcode; norm_code. }
+      pose proof (step_push s _ _ _ Hat1) as Hst.
+      set (s1 := upd s (VLit LUndef :: stk s) (S (ip s)) (heap s)) in *.
+      assert (Hat2 : at_code s1 (pre ++ [IPush LUndef]) (repeat (IPush LUndef) n) post).
+      { split; simpl; [|solve_len]. rewrite Hcode. norm_code. }
+      eapply reaches_trans; [apply reaches_step; exact Hst|].
+      eapply reaches_trans; [apply (IH s1 _ _ Hat2)|].
+      replace (upd s1 (repeat (VLit LUndef) n ++ stk s1) (length (pre ++ [IPush LUndef]) + n) (heap s1))
+        with (upd s (repeat (VLit LUndef) (S n) ++ stk s) (length pre + S n) (heap s)); [apply reaches_refl|].
+      unfold upd; simpl. f_equal.
+      + change (VLit LUndef :: repeat (VLit LUndef) n ++ stk s) with ((VLit LUndef :: repeat (VLit LUndef) n) ++ stk s).
+        rewrite (repeat_cons n (VLit LUndef)). rewrite <- app_assoc. reflexivity.
+      + solve_len.
+  Qed.
+
+
+  (* ---------------------------------------------------------------- calling a procedure of the fragment *)
+
+  Lemma index_of_app_inv : forall x l1 l2 i, index_of x (l1 ++ l2) = Some i -> i < length l1 -> index_of x l1 = Some i.
+  Proof.
+    intros x l1 l2 i H Hlt. destruct (index_of x l1) as [k|] eqn:E.
+    - rewrite (index_of_app_l _ _ l2 _ E) in H. exact H.
+    - rewrite index_of_app_r in H by exact E. destruct (index_of x l2); simpl in H; inversion H. lia.
+  Qed.
+
+  Lemma index_of_app_inv2 : forall x l1 l2 i, index_of x (l1 ++ l2) = Some i -> length l1 <= i ->
+    index_of x l1 = None /\ index_of x l2 = Some (i - length l1).
+  Proof.
+    intros x l1 l2 i H Hle. destruct (index_of x l1) as [k|] eqn:E.
+    - rewrite (index_of_app_l _ _ l2 _ E) in H. inversion H; subst. apply index_of_lt in E. lia.
+    - split; auto. rewrite index_of_app_r in H by exact E. destruct (index_of x l2) as [k|]; simpl in H; inversion H.
+      f_equal. lia.
+  Qed.
+
+  Lemma memn_false_index_of : forall x l, memn x l = false -> index_of x l = None.
+  Proof.
+    intros x l. induction l as [|y r IH]; simpl; intro H; auto.
+    apply orb_false_iff in H. destruct H as [H1 H2]. rewrite Nat.eqb_sym, H1. rewrite IH; auto.
+  Qed.
+
+  Lemma nth_error_repeat_lt : forall {A} (a : A) n k, k < n -> nth_error (repeat a n) k = Some a.
+  Proof. intros A a n. induction n as [|n IH]; intros [|k] H; simpl; auto; try lia. apply IH. lia. Qed.
+
+  Lemma bind_all_app_eq : forall {T} id ps ls vs cenv cs (F : senv -> list sval -> T), length vs = length ps ->
+    (let '(e1, c1) := bind_all id ps (firstn (length ps) vs) cenv cs in
+     let '(e2, c2) := (e1, c1) in
+     let '(e3, c3) := bind_all id ls (repeat (SLit LUndef) (length ls)) e2 c2 in F e3 c3)
+    = F (fst (bind_all id (ps ++ ls) (vs ++ repeat (SLit LUndef) (length ls)) cenv cs))
+        (snd (bind_all id (ps ++ ls) (vs ++ repeat (SLit LUndef) (length ls)) cenv cs)).
+  Proof.
+    intros T id ps ls vs cenv cs F Hl. rewrite <- Hl, firstn_all. rewrite bind_all_app by exact Hl.
+    destruct (bind_all id ps vs cenv cs) as [e1 c1]. simpl fst. simpl snd.
+    destruct (bind_all id ls (repeat (SLit LUndef) (length ls)) e1 c1) as [e3 c3]. reflexivity.
+  Qed.
+
+  Lemma call_closedA : forall f, (forall e, simA_at f e) ->
+    forall s0 W id ps ls b fv svs' vars els vargs vs X rfp rself rip cenv st2 v st',
+    agrees svs' -> nodupb (ps ++ ls) = true -> nodupb (SV id) = true ->
+    forallb (fun x => memn x (ps ++ ls)) (SV id) = true ->
+    fragA (Some (id, ps, ls, fv)) b = true ->
+    (forall p, In p fv -> exists m, snd p = Local m /\ m <> id) ->
+    vec_ok W fv vars els -> fvrelW W cenv fv els ->
+    wh W = heap s0 -> wc W = cells st2 -> WINV W ->
+    length vs = length ps -> Forall2 (vrelW W) vargs vs ->
+    (forall g w, glob_lookup g (sglobals st2) = Some w -> exists v0, assoc_nat g (globals s0) = Some v0 /\ vrelW W v0 w) ->
+    eval f b (fst (bind_all id (ps ++ ls) (vs ++ repeat (SLit LUndef) (length ls)) cenv (cells st2)))
+             (mkstore (snd (bind_all id (ps ++ ls) (vs ++ repeat (SLit LUndef) (length ls)) cenv (cells st2))) (sglobals st2))
+      = SVal v st' ->
+    sglobals st' = sglobals st2 /\
+    exists sc W' v',
+      make_call s0 (VProc 0 (length ps) (entryA svs' id ps ls fv b) vars) (vargs ++ X) (length vargs) rip rself rfp = Next sc /\
+      wext W W' /\ wc W' = cells st' /\ WINV W' /\ vrelW W' v' v /\
+      reaches sc (mkst (v' :: X) rfp rself rip (wh W') (globals s0)).
+  Proof.
+    intros f IH s0 W id ps ls b fv svs' vars els vargs vs X rfp rself rip cenv st2 v st'
+           Hag Hnd Hndsv Hsvin Hfr Hown Hvec Hfvr HWh HWc HINV Hlvs Hargs Hgl He.
+    pose proof HINV as (HB & _).
+    set (n := length ps) in *. set (nl := length ls) in *.
+    set (frame := ps ++ ls) in *. set (svid := SV id) in *.
+    set (vals := vs ++ repeat (SLit LUndef) nl) in *.
+    assert (Hlva : length vargs = n) by (rewrite (Forall2_len _ _ _ Hargs); exact Hlvs).
+    assert (Hlvals : length vals = length frame).
+    { unfold vals, frame. rewrite !app_length, repeat_length. fold n nl. lia. }
+    set (proc := VProc 0 n (entryA svs' id ps ls fv b) vars) in *.
+    set (hdr := [vint rfp; rself; vint rip; vint n]).
+    set (sc := mkst (hdr ++ vargs ++ X) (length (vargs ++ X)) proc 0 (heap s0) (globals s0)).
+    assert (Hmc : make_call s0 proc (vargs ++ X) (length vargs) rip rself rfp = Next sc).
+    { unfold proc. rewrite Hlva. rewrite make_call_fixed by (rewrite app_length; lia). reflexivity. }
+    set (pushes := repeat (IPush LUndef) nl).
+    set (boxc := box_code ps None ls svid).
+    set (body := generate true svs' (lctxA (Some (id, ps, ls, fv))) b).
+    assert (Hcode : code_of (self sc) = pushes ++ boxc ++ body ++ [IRet]) by reflexivity.
+    (* phase 1: the locals *)
+    assert (Hat0 : at_code sc [] pushes (boxc ++ body ++ [IRet])) by (split; [exact Hcode|reflexivity]).
+    pose proof (push_undefs nl sc [] _ Hat0) as Hr1.
+    set (U := repeat (VLit LUndef) nl) in *.
+    set (s1 := upd sc (U ++ stk sc) (length (@nil instr) + nl) (heap sc)) in *.
+    set (fp1 := length (vargs ++ X)) in *.
+    (* the frame slots after phase 1 *)
+    assert (FS : forall x, memn x frame = true ->
+              exists i k va w, index_of x frame = Some i /\ slot fp1 (param_index ps None ls x) = Some k /\
+                               sget (stk s1) k = Some va /\ nth_error vals i = Some w /\ vrelW W va w /\
+                               fp1 - n <= k /\ (forall t, t < 4 -> k <> fp1 + t)).
+    { intros x Hm. destruct (memn_index_of x frame Hm) as (i & Hi & Hil).
+      destruct (Nat.lt_ge_cases i n) as [Hlt|Hge].
+      - pose proof (index_of_app_inv _ _ _ _ Hi Hlt) as Hip.
+        destruct (nth_error vs i) as [w|] eqn:Ew; [|apply nth_error_None in Ew; lia].
+        destruct (Forall2_nth _ _ _ _ _ Hargs Ew) as (va & Hva & Hrel).
+        exists i, (fp1 - 1 - i), va, w. repeat split; auto.
+        + unfold param_index. rewrite Hip. apply slot_arg. unfold fp1. rewrite app_length. lia.
+        + unfold s1, sc, upd; cbn [stk]. rewrite app_assoc. unfold fp1.
+          rewrite sget_arg by (rewrite app_length; lia). rewrite nth_error_app1 by lia. exact Hva.
+        + unfold vals. rewrite nth_error_app1 by lia. exact Ew.
+        + unfold fp1. rewrite app_length. lia.
+        + intros t Ht. unfold fp1. rewrite app_length. lia.
+      - destruct (index_of_app_inv2 _ _ _ _ Hi Hge) as [Hnp Hil2]. fold n in Hil2.
+        set (j := i - n) in *. assert (Hj : j < nl) by (apply index_of_lt in Hil2; exact Hil2).
+        exists i, (fp1 + 4 + j), (VLit LUndef), (SLit LUndef). repeat split; auto.
+        + rewrite (param_index_local _ _ _ _ Hnp Hil2). apply slot_local.
+        + unfold s1, sc, upd; cbn [stk].
+          replace (fp1 + 4 + j) with (length (hdr ++ vargs ++ X) + j) by (unfold hdr, fp1; simpl; lia).
+          rewrite sget_hdr by (unfold U; rewrite repeat_length; exact Hj).
+          unfold U. rewrite repeat_length. apply nth_error_repeat_lt. lia.
+        + unfold vals. rewrite nth_error_app2 by lia. rewrite Hlvs. fold n. fold j. apply nth_error_repeat_lt. exact Hj.
+        + constructor.
+        + lia.
+        + intros t Ht. lia. }
+    assert (Hinframe : forall x, In x svid -> memn x frame = true).
+    { intros x Hx. rewrite forallb_forall in Hsvin. apply Hsvin. exact Hx. }
+    assert (Hslotinj : forall x y k, memn x frame = true -> memn y frame = true ->
+              slot fp1 (param_index ps None ls x) = Some k -> slot fp1 (param_index ps None ls y) = Some k -> x = y).
+    { intros x y k Hx Hy H1 H2. pose proof (slot_inj _ _ _ _ H1 H2) as Hpi.
+      apply (Proofs.param_index_injective ps None ls x y); auto; unfold frame_vars; simpl; apply memn_In; auto. }
+    (* phase 2: boxing *)
+    assert (Hat1 : at_code s1 pushes boxc (body ++ [IRet])).
+    { split; [exact Hcode|]. unfold s1; simpl. unfold pushes. rewrite repeat_length. reflexivity. }
+    destruct (box_loop ps ls svid s1 pushes _ Hat1 (nodupb_NoDup _ Hndsv)) as (stk' & boxes & Hr2 & Hlstk & Hlbx & Hunch & Hbel & Hbox).
+    { intros x Hx. destruct (FS x (Hinframe x Hx)) as (i & k & va & w & _ & Hk & Hva & _). exists k, va. auto. }
+    { intros x y k Hx Hy. apply Hslotinj; auto. }
+    fold boxc in Hr2.
+    set (s2 := mkst stk' (fp s1) (self s1) (length pushes + length boxc) (heap s1 ++ boxes) (globals s1)) in *.
+    (* the world of the new frame *)
+    set (We := wenter W frame svid vals boxes).
+    assert (HEe : wext W We) by (apply wenter_ext; exact HB).
+    assert (HINVe : WINV We).
+    { apply wenter_INV; auto using nodupb_NoDup.
+      intros j x Hjx. assert (Hxin : In x svid) by (eapply nth_error_In; eauto).
+      destruct (FS x (Hinframe x Hxin)) as (i & k & va & w & Hi & Hk & Hva & Hw & Hrel & _).
+      destruct (Hbox j x Hjx) as (k' & v' & Hk' & Hv' & _ & Hhb).
+      change (fp s1) with fp1 in Hk'. rewrite Hk in Hk'. inversion Hk'; subst k'. rewrite Hva in Hv'. inversion Hv'; subst v'.
+      exists i, va, w. repeat split; auto.
+      rewrite nth_error_app2 in Hhb by lia. replace (length (heap s1) + j - length (heap s1)) with j in Hhb by lia. exact Hhb. }
+    set (e3 := fst (bind_all id frame vals cenv (cells st2))) in *.
+    assert (Hcells : snd (bind_all id frame vals cenv (cells st2)) = cells st2 ++ vals) by (apply bind_all_cells; exact Hlvals).
+    rewrite Hcells in He.
+    assert (Hoke : env_okA (Some (id, ps, ls, fv)) e3 (sglobals st2) We s2).
+    { split; [|split].
+      - intros id0 ps0 ls0 fv0 Hc x Hm. inversion Hc; subst id0 ps0 ls0 fv0. fold frame in Hm.
+        destruct (FS x Hm) as (i & k & va & w & Hi & Hk & Hva & Hw & Hrel & _).
+        destruct (bind_all_lookup id frame vals cenv (cells st2) x i Hnd Hlvals Hi) as [Hl Hn].
+        fold e3 in Hl.
+        destruct (memn x svid) eqn:Ebx.
+        + destruct (memn_index_of x svid Ebx) as (j & Hj & Hjl).
+          destruct (Hbox j x (index_of_nth _ _ _ Hj)) as (k' & v' & Hk' & _ & Hstk' & _).
+          change (fp s1) with fp1 in Hk'. rewrite Hk in Hk'. inversion Hk'; subst k'.
+          exists (length (cells st2) + i), k, (VPair (length (heap s1) + j)). repeat split; auto.
+          exists id. split; auto. left. split; [exact Ebx|]. exists (length (heap s1) + j). split; auto.
+          simpl. unfold wbE. rewrite HWc. assert (E : (length (cells st2) + i <? length (cells st2)) = false) by (apply Nat.ltb_ge; lia).
+          rewrite E. replace (length (cells st2) + i - length (cells st2)) with i by lia.
+          rewrite (index_of_nth _ _ _ Hi). fold svid. rewrite Hj. rewrite HWh. reflexivity.
+        + exists (length (cells st2) + i), k, va. repeat split; auto.
+          * simpl. rewrite Hunch; auto. intros y Hy E. change (fp s1) with fp1 in E.
+            assert (y = x) by (apply (Hslotinj y x k); auto). subst y. apply memn_In in Hy. congruence.
+          * exists id. split; auto. right. split; [exact Ebx|]. split.
+            -- simpl. unfold wbE. rewrite HWc. assert (E : (length (cells st2) + i <? length (cells st2)) = false) by (apply Nat.ltb_ge; lia).
+               rewrite E. replace (length (cells st2) + i - length (cells st2)) with i by lia.
+               rewrite (index_of_nth _ _ _ Hi). fold svid. rewrite (memn_false_index_of _ _ Ebx). reflexivity.
+            -- exists w. split; [|eapply vrelW_mono; eauto]. simpl. rewrite HWc. rewrite nth_error_app2 by lia.
+               replace (length (cells st2) + i - length (cells st2)) with i by lia. exact Hw.
+      - intros id0 ps0 ls0 fv0 Hc. inversion Hc; subst id0 ps0 ls0 fv0. exists els. split.
+        + eapply vec_ok_mono; eauto.
+        + eapply fvrelW_mono; eauto. unfold fvrelW in *. clear - Hfvr Hown.
+          induction Hfvr as [|p v0 fvr elr Hp Hr IHf]; constructor.
+          * destruct Hp as (l & Hl & Hv0). exists l. split; auto.
+            destruct (Hown p (or_introl eq_refl)) as (m & Hsnd & Hne). destruct p as [px po]. simpl in Hsnd. subst po.
+            unfold e3. rewrite bind_all_other_owner by exact Hne. exact Hl.
+          * apply IHf. intros p0 Hin. apply Hown. right; exact Hin.
+      - intros g w Hg. destruct (Hgl g w Hg) as (v0 & Ha & Hv0). exists v0. split; auto. eapply vrelW_mono; eauto. }
+    (* phase 3: the body *)
+    assert (Hat2 : at_code s2 (pushes ++ boxc) body [IRet]).
+    { split; [|simpl; rewrite app_length; reflexivity]. simpl. rewrite <- app_assoc. exact Hcode. }
+    assert (HWhe : wh We = heap s2) by (simpl; rewrite HWh; reflexivity).
+    assert (HWce : wc We = cells (mkstore (cells st2 ++ vals) (sglobals st2))) by (simpl; rewrite HWc; reflexivity).
+    destruct (IH b (Some (id, ps, ls, fv)) e3 _ v st' Hfr He true svs' s2 _ _ We Hag Hat2 HWhe HWce HINVe Hoke)
+      as (Hsg & W' & v' & HE' & HWc' & HINV' & Hv' & Hout).
+    split; [exact Hsg|]. exists sc, W', v'. split; [exact Hmc|]. split; [eapply wext_trans; eauto|].
+    split; [exact HWc'|]. split; [exact HINV'|]. split; [exact Hv'|].
+    (* phase 4: RET *)
+    assert (Hfi1 : frame_info s1 = Some (n, rip, rself, rfp)).
+    { eapply (frame_info_app sc s1 U); [apply frame_info_entry| |]; reflexivity. }
+    assert (Hfi2 : frame_info s2 = Some (n, rip, rself, rfp)).
+    { rewrite <- Hfi1. apply frame_info_same; [reflexivity|]. intros t Ht. simpl. apply Hunch.
+      intros x Hx E. change (fp s1) with fp1 in E.
+      destruct (FS x (Hinframe x Hx)) as (i & k & va & w & _ & Hk & _ & _ & _ & _ & Hne).
+      rewrite Hk in E. inversion E. apply (Hne t Ht). exact H0. }
+    assert (Hnfp : n <= fp s2) by (change (fp s2) with fp1; unfold fp1; rewrite app_length; lia).
+    assert (Hbase : below (fp s2 - n) stk' = X).
+    { rewrite Hbel.
+      - unfold s1, sc; cbn [stk fp]. change (fp s2) with fp1. unfold fp1. rewrite app_length.
+        replace (length vargs + length X - n) with (length X) by lia.
+        rewrite !app_assoc. apply below_exact.
+      - intros x k Hx Hk. change (fp s1) with fp1 in Hk. change (fp s2) with fp1.
+        destruct (FS x (Hinframe x Hx)) as (i & k' & va & w & _ & Hk' & _ & _ & _ & Hge & _).
+        rewrite Hk in Hk'. inversion Hk'; subst k'. exact Hge. }
+    eapply reaches_trans; [exact Hr1|]. eapply reaches_trans; [exact Hr2|].
+    destruct Hout as [Hfall | [_ Hret]].
+    - eapply reaches_trans; [exact Hfall|].
+      set (se := fallH s2 v' (pushes ++ boxc) body (wh W')) in *.
+      assert (Hate : at_code se ((pushes ++ boxc) ++ body) [IRet] []).
+      { split; [|simpl; rewrite !app_length; lia]. simpl. rewrite <- !app_assoc. exact Hcode. }
+      assert (Hfie : frame_info se = Some (n, rip, rself, rfp)).
+      { eapply (frame_info_app s2 se [v']); eauto. }
+      pose proof (step_ret se _ _ v' stk' n rip rself rfp Hate eq_refl Hfie Hnfp) as Hstep.
+      apply reaches_step. etransitivity; [exact Hstep|]. f_equal. f_equal. f_equal.
+      change (v' :: stk') with ([v'] ++ stk'). rewrite below_app.
+      + exact Hbase.
+      + change (fp se) with (fp s2). apply frame_info_lt in Hfi2. simpl in Hfi2. simpl. lia.
+    - specialize (Hret n rip rself rfp Hfi2 Hnfp).
+      replace (mkst (v' :: X) rfp rself rip (wh W') (globals s0)) with (retH s2 v' n rip rself rfp (wh W')); auto.
+      unfold retH. f_equal. f_equal. exact Hbase.
+  Qed.
+
+
+  (* ---------------------------------------------------------------- primitives *)
+
+  Lemma vrelW_lit_inv : forall W v l, vrelW W v (SLit l) -> v = VLit l.
+  Proof. intros W v l H. inversion H; reflexivity. Qed.
+
+  Lemma vrelW_pair_inv : forall W v x y, vrelW W v (SPair x y) ->
+    exists a vx vy, v = VPair a /\ nth_error (wh W) a = Some (HPair vx vy) /\ vrelW W vx x /\ vrelW W vy y.
+  Proof. intros W v x y H. inversion H; subst. eauto 8. Qed.
+
+  Lemma vrelW_clo_proc : forall W v id ps r ls b cenv, vrelW W v (SClo id ps r ls b cenv) ->
+    exists fl n c vars, v = VProc fl n c vars.
+  Proof. intros W v id ps r ls b cenv H. inversion H; subst. eauto. Qed.
+
+  Lemma prim1_okW : forall p W v w r stk0,
+    prim_arity p = 1 -> vrelW W v w -> prim_sem p [w] = inl (Some r) ->
+    exists r', prim_step p (v :: stk0) (wh W) = inl (Some (r' :: stk0, wh W)) /\ vrelW W r' r.
+  Proof.
+    intros p W v w r stk0 Ha Hv Hs.
+    destruct w as [l | x y | id ps rr ls b env].
+    - apply vrelW_lit_inv in Hv. subst v.
+      destruct p; try discriminate Ha; simpl in Hs; try discriminate; inversion Hs; subst; simpl;
+        eexists; split; try reflexivity; try (destruct l as [z|[|]| | | |]; constructor).
+    - destruct (vrelW_pair_inv _ _ _ _ Hv) as (a & vx & vy & -> & Hn & H1 & H2).
+      destruct p; try discriminate Ha; simpl in Hs; try discriminate; inversion Hs; subst; simpl; rewrite ?Hn;
+        eexists; split; try reflexivity; auto; constructor.
+    - destruct (vrelW_clo_proc _ _ _ _ _ _ _ _ Hv) as (fl & n & c & vars & ->).
+      destruct p; try discriminate Ha; simpl in Hs; try discriminate; inversion Hs; subst; simpl;
+        eexists; split; try reflexivity; constructor.
+  Qed.
+
+  Lemma prim2_okW : forall p W v1 v2 w1 w2 r stk0,
+    WINV W -> prim_arity p = 2 -> pure_prim p = true -> vrelW W v1 w1 -> vrelW W v2 w2 ->
+    prim_sem p [w1; w2] = inl (Some r) ->
+    exists r' W', wext W W' /\ WINV W' /\ wc W' = wc W /\
+      (if prim_inverse p then prim_step (prim_opcode p) (v2 :: v1 :: stk0) (wh W)
+       else prim_step p (v1 :: v2 :: stk0) (wh W)) = inl (Some (r' :: stk0, wh W'))
+      /\ vrelW W' r' r.
+  Proof.
+    intros p W v1 v2 w1 w2 r stk0 HI Ha Hp H1 H2 Hs. pose proof HI as (HB & _).
+    destruct p; try discriminate Ha; try discriminate Hp.
+    all: try (destruct w1 as [[a| | | | |] | |]; simpl in Hs; try discriminate;
+              destruct w2 as [[b| | | | |] | |]; simpl in Hs; try discriminate;
+              apply vrelW_lit_inv in H1; apply vrelW_lit_inv in H2; subst; inversion Hs; subst; simpl;
+              eexists; exists W; split; [apply wext_refl; exact HB|]; split; [exact HI|]; split; [reflexivity|]; split; [reflexivity|constructor]).
+    simpl in Hs. inversion Hs; subst. simpl.
+    exists (VPair (length (wh W))), (walloc W (HPair v1 v2)).
+    split; [apply walloc_ext; auto|]. split; [apply walloc_INV; auto|]. split; [reflexivity|]. split; [reflexivity|].
+    econstructor.
+    - simpl. rewrite nth_error_app2 by lia. rewrite Nat.sub_diag. reflexivity.
+    - apply walloc_not_box; auto.
+    - eapply vrelW_mono; eauto using walloc_ext.
+    - eapply vrelW_mono; eauto using walloc_ext.
+  Qed.
+
+  Lemma sval_false_decW : forall W v w, vrelW W v w ->
+    (w = SLit (LBool false) /\ v = VLit (LBool false)) \/ (w <> SLit (LBool false) /\ v <> VLit (LBool false)).
+  Proof.
+    intros W v w H. destruct H as [l | a vx vy x y Hn Hnb H1 H2 | ].
+    - destruct l as [z|[|]| | | |]; try (right; split; congruence). left; auto.
+    - right; split; congruence.
+    - right; split; congruence.
+  Qed.
+
+  (* ---------------------------------------------------------------- composing results *)
+
+  (** the evaluation continues from a state s2 of the same frame in a later world W1 *)
+  Lemma resA_cont : forall tl s s2 pre pre2 c c2 W W1 v st',
+    reaches s s2 -> stk s2 = stk s -> fp s2 = fp s -> self s2 = self s -> globals s2 = globals s ->
+    wext W W1 ->
+    (forall v' h', reaches (fallH s2 v' pre2 c2 h') (fallH s v' pre c h')) ->
+    resA tl s2 pre2 c2 W1 v st' -> resA tl s pre c W v st'.
+  Proof.
+    intros tl s s2 pre pre2 c c2 W W1 v st' Hr Hs Hf Hse Hg HE Hcont (W' & v' & HE' & Hc' & HI' & Hv' & Hout).
+    exists W', v'. split; [eapply wext_trans; eauto|]. split; [exact Hc'|]. split; [exact HI'|]. split; [exact Hv'|].
+    eapply outcomeH_lift; eauto.
+  Qed.
+
+
+  (* ---------------------------------------------------------------- fetching a variable; the closure fill loop *)
+
+  Lemma gen_fetchA : forall svs id ps ls cfv x m,
+    gen_non_global_ref svs (lctxA (Some (id, ps, ls, cfv))) x (Local m) false =
+    if Nat.eqb m id then [ILocalRef (param_index ps None ls x)] else [IClosureRef (closure_index (x, Local m) cfv)].
+  Proof. intros. unfold gen_non_global_ref. simpl. destruct (Nat.eqb m id); reflexivity. Qed.
+
+  Lemma gen_fetchA_length : forall svs cur x m, resolvableA cur x m = true ->
+    length (gen_non_global_ref svs (lctxA cur) x (Local m) false) = 1.
+  Proof.
+    intros svs [[[[id ps] ls] cfv]|] x m Hr; simpl in Hr; try discriminate.
+    rewrite gen_fetchA. destruct (Nat.eqb m id); reflexivity.
+  Qed.
+
+  Lemma fetch_varA : forall cur env sg W0 s0 svs s vs hx x m pre post,
+    env_okA cur env sg W0 s0 -> resolvableA cur x m = true ->
+    fp s = fp s0 -> self s = self s0 -> stk s = vs ++ stk s0 -> heap s = wh W0 ++ hx ->
+    at_code s pre (gen_non_global_ref svs (lctxA cur) x (Local m) false) post ->
+    exists v l, env_lookup (x, Local m) env = Some l /\ varrel W0 (x, Local m) l v /\
+                step s = Next (upd s (v :: stk s) (S (ip s)) (heap s)).
+  Proof.
+    intros cur env sg W0 s0 svs s vs hx x m pre post (HP & HV & _) Hr Hfp Hself Hstk Hheap Hat.
+    destruct cur as [[[[id ps] ls] cfv]|]; simpl in Hr; try discriminate.
+    rewrite gen_fetchA in Hat.
+    destruct (Nat.eqb m id) eqn:Em.
+    - apply Nat.eqb_eq in Em. subst m.
+      destruct (HP id ps ls cfv eq_refl x Hr) as (l & k & v & Hl & Hs & Hg & Hv).
+      exists v, l. repeat split; auto.
+      eapply step_local_ref; eauto; [rewrite Hfp; exact Hs | rewrite Hstk; apply sget_app; exact Hg].
+    - destruct (HV id ps ls cfv eq_refl) as (els & Hvo & Hfv).
+      pose proof (closure_index_nth _ _ Hr) as Hidx.
+      destruct cfv as [|p0 cfv']; [discriminate Hr|].
+      destruct Hvo as (a & Hvars & Hha & _).
+      destruct (Forall2_nth1 _ _ _ _ _ Hfv Hidx) as (v & Hv & l & Hl & Hrel).
+      exists v, l. repeat split; auto.
+      eapply step_closure_ref; eauto.
+      + rewrite Hself. exact Hvars.
+      + rewrite Hheap. rewrite nth_error_app1; auto. apply nth_error_Some. congruence.
+  Qed.
+
+  Lemma fill_loopA : forall cur env sg W0 s0 svs newid, env_okA cur env sg W0 s0 ->
+    forall fvs k els s pre post a,
+    fv_okA cur newid fvs = true ->
+    at_code s pre (closure_fill svs (lctxA cur) k fvs) post ->
+    fp s = fp s0 -> self s = self s0 ->
+    stk s = VVec a :: stk s0 -> a = length (wh W0) -> heap s = wh W0 ++ [HVec els] ->
+    k + length fvs = length els ->
+    exists vals,
+      reaches s (upd s (stk s) (length pre + length (closure_fill svs (lctxA cur) k fvs))
+                     (wh W0 ++ [HVec (firstn k els ++ vals)]))
+      /\ fvrelW W0 env fvs vals.
+  Proof.
+    intros cur env sg W0 s0 svs newid Hok fvs.
+    induction fvs as [|[x o] rest IH]; intros k els s pre post a Hfv Hat Hfp Hself Hstk Ha Hheap Hlen.
+    - exists []. split; [|constructor]. simpl in *. destruct Hat as [_ Hip].
+      assert (k = length els) by lia. subst k. rewrite firstn_all, app_nil_r, Nat.add_0_r.
+      destruct s; simpl in *; subst. apply reaches_refl.
+    - simpl in Hfv. apply andb_true_iff in Hfv. destruct Hfv as [Hp Hrest].
+      destruct o as [|m]; [discriminate Hp|]. simpl in Hp. apply andb_true_iff in Hp. destruct Hp as [Hne Hres].
+      simpl closure_fill in *.
+      set (cf := gen_non_global_ref svs (lctxA cur) x (Local m) false) in *.
+      set (cr := closure_fill svs (lctxA cur) (S k) rest) in *.
+      assert (Hcfl : length cf = 1) by (apply gen_fetchA_length; auto).
+      destruct Hat as [Hcode Hip].
+      assert (Hat1 : at_code s pre cf (([IPush (LInt (Z.of_nat k)); IStackRef 3; IVectorSet] ++ cr) ++ post)).
+      { split; auto; rewrite Hcode; norm_code. }
+      destruct (fetch_varA cur env sg W0 s0 svs s [VVec a] [HVec els] x m pre _ Hok Hres Hfp Hself Hstk Hheap Hat1)
+        as (v & l & Hl & Hrel & Hstep1).
+      set (s1 := upd s (v :: stk s) (S (ip s)) (heap s)) in *.
+      assert (Hat2 : at_code s1 (pre ++ cf) [IPush (LInt (Z.of_nat k))] ([IStackRef 3; IVectorSet] ++ cr ++ post)).
+      { split; simpl; [|rewrite app_length; lia]. rewrite Hcode. norm_code. }
+      pose proof (step_push s1 _ _ _ Hat2) as Hstep2.
+      set (s2 := upd s1 (VLit (LInt (Z.of_nat k)) :: stk s1) (S (ip s1)) (heap s1)) in *.
+      assert (Hat3 : at_code s2 (pre ++ cf ++ [IPush (LInt (Z.of_nat k))]) [IStackRef 3] ([IVectorSet] ++ cr ++ post)).
+      { split; simpl; [|rewrite !app_length; simpl; lia]. rewrite Hcode. norm_code. }
+      assert (Hn3 : nth_error (stk s2) 2 = Some (VVec a)) by (simpl; rewrite Hstk; reflexivity).
+      pose proof (step_stack_ref s2 _ _ 2 _ Hat3 Hn3) as Hstep3.
+      set (s3 := upd s2 (VVec a :: stk s2) (S (ip s2)) (heap s2)) in *.
+      assert (Hat4 : at_code s3 (pre ++ cf ++ [IPush (LInt (Z.of_nat k)); IStackRef 3]) [IVectorSet] (cr ++ post)).
+      { split; simpl; [|rewrite !app_length; simpl; lia]. rewrite Hcode. norm_code. }
+      assert (Hh3 : nth_error (heap s3) a = Some (HVec els)).
+      { simpl. rewrite Hheap, Ha. rewrite nth_error_app2 by lia. rewrite Nat.sub_diag. reflexivity. }
+      assert (Hstk3 : stk s3 = VVec a :: VLit (LInt (Z.of_nat k)) :: v :: (VVec a :: stk s0)) by (simpl; rewrite Hstk; reflexivity).
+      pose proof (step_vector_set s3 _ _ a k v _ els Hat4 Hstk3 Hh3 ltac:(simpl in Hlen; lia)) as Hstep4.
+      set (els' := list_set els k v) in *.
+      set (s4 := upd s3 (VVec a :: stk s0) (S (ip s3)) (list_set (heap s3) a (HVec els'))) in *.
+      assert (Hheap4 : heap s4 = wh W0 ++ [HVec els']).
+      { simpl. rewrite Hheap, Ha. apply list_set_app_last. }
+      assert (Hat5 : at_code s4 (pre ++ cf ++ [IPush (LInt (Z.of_nat k)); IStackRef 3; IVectorSet]) cr post).
+      { split; simpl; [|rewrite !app_length; simpl; lia]. rewrite Hcode. norm_code. }
+      assert (Hlen' : S k + length rest = length els') by (unfold els'; rewrite list_set_length; simpl in Hlen; lia).
+      destruct (IH (S k) els' s4 _ post a Hrest Hat5 Hfp Hself eq_refl Ha Hheap4 Hlen') as (vals & Hreach & Hvals).
+      fold cr in Hreach.
+      exists (v :: vals). split.
+      + eapply reaches_trans; [apply reaches_step; exact Hstep1|].
+        eapply reaches_trans; [apply reaches_step; exact Hstep2|].
+        eapply reaches_trans; [apply reaches_step; exact Hstep3|].
+        eapply reaches_trans; [apply reaches_step; exact Hstep4|].
+        replace (upd s (stk s) (length pre + length (cf ++ IPush (LInt (Z.of_nat k)) :: IStackRef 3 :: IVectorSet :: cr))
+                     (wh W0 ++ [HVec (firstn k els ++ v :: vals)]))
+          with (upd s4 (stk s4) (length (pre ++ cf ++ [IPush (LInt (Z.of_nat k)); IStackRef 3; IVectorSet]) + length cr)
+                    (wh W0 ++ [HVec ((firstn k els ++ [v]) ++ vals)])).
+        { assert (Hfs : firstn (S k) els' = firstn k els ++ [v]) by (apply firstn_list_set_S; simpl in Hlen; lia).
+          rewrite Hfs in Hreach. exact Hreach. }
+        unfold upd; simpl. rewrite Hstk. f_equal.
+        * solve_len.
+        * rewrite <- app_assoc. reflexivity.
+      + constructor; auto. exists l. auto.
+  Qed.
+
+
+  (* ---------------------------------------------------------------- operands *)
+
+  Lemma simA_args : forall f, (forall e, simA_at f e) ->
+    forall cur args env st rvs st1, forallb (fragA cur) args = true ->
+    evlist (eval f) (rev args) env st = inl (rvs, st1) ->
+    forall svs s pre post W, agrees svs ->
+    at_code s pre (gen_args svs (lctxA cur) args) post ->
+    wh W = heap s -> wc W = cells st -> WINV W -> env_okA cur env (sglobals st) W s ->
+    sglobals st1 = sglobals st /\
+    exists W1 vargs, wext W W1 /\ wc W1 = cells st1 /\ WINV W1 /\ Forall2 (vrelW W1) vargs (rev rvs) /\
+      reaches s (upd s (vargs ++ stk s) (length pre + length (gen_args svs (lctxA cur) args)) (wh W1)).
+  Proof.
+    intros f IH cur args. induction args as [|a r IHr]; intros env st rvs st1 Hp He svs s pre post W Hag Hat HWh HWc HI Hok.
+    - simpl in He. inversion He; subst. split; auto. exists W, []. pose proof HI as (HB & _).
+      split; [apply wext_refl; auto|]. split; auto. split; auto. split; [constructor|].
+      destruct Hat as [_ Hip]. simpl. rewrite Nat.add_0_r, <- Hip, HWh. destruct s; apply reaches_refl.
+    - simpl in Hp. apply andb_true_iff in Hp. destruct Hp as [Hpa Hpr].
+      simpl rev in He. rewrite evlist_app in He.
+      destruct (evlist (eval f) (rev r) env st) as [[rvs_r st_r]|x] eqn:Er; try discriminate.
+      simpl evlist in He.
+      destruct (eval f a env st_r) as [wa st_a| |] eqn:Ea; try discriminate.
+      inversion He; subst rvs st1. clear He.
+      change (gen_args svs (lctxA cur) (a :: r)) with
+        (gen_args svs (lctxA cur) r ++ generate false svs (lctxA cur) a) in *.
+      set (cr := gen_args svs (lctxA cur) r) in *. set (ca := generate false svs (lctxA cur) a) in *.
+      destruct Hat as [Hcode Hip].
+      assert (Hat1 : at_code s pre cr (ca ++ post)) by (split; auto; rewrite Hcode; norm_code).
+      destruct (IHr env st rvs_r st_r Hpr Er svs s pre _ W Hag Hat1 HWh HWc HI Hok) as (Hsg1 & W1 & vr & HE1 & HWc1 & HI1 & Hvr & Hr1).
+      fold cr in Hr1. set (s1 := upd s (vr ++ stk s) (length pre + length cr) (wh W1)) in *.
+      assert (Hat2 : at_code s1 (pre ++ cr) ca post).
+      { split; simpl; [|rewrite app_length; reflexivity]. rewrite Hcode. norm_code. }
+      pose proof HI as (HB & _).
+      assert (Hok1 : env_okA cur env (sglobals st_r) W1 s1).
+      { rewrite Hsg1. eapply (env_okA_mono cur env _ W W1 s s1 vr); eauto. }
+      destruct (IH a cur env st_r wa st_a Hpa Ea false svs s1 _ _ W1 Hag Hat2 eq_refl HWc1 HI1 Hok1)
+        as (Hsg2 & W2 & va & HE2 & HWc2 & HI2 & Hva & Hout).
+      apply outcomeH_false in Hout. fold ca in Hout.
+      split; [congruence|]. exists W2, (va :: vr).
+      split; [eapply wext_trans; eauto|]. split; [exact HWc2|]. split; [exact HI2|]. split.
+      + rewrite rev_app_distr. simpl. constructor; auto.
+        pose proof HI1 as (HB1 & _). eapply Forall2_vrelW_mono; eauto.
+      + eapply reaches_trans; [exact Hr1|]. eapply reaches_trans; [exact Hout|].
+        replace (fallH s1 va (pre ++ cr) ca (wh W2))
+          with (upd s ((va :: vr) ++ stk s) (length pre + length (cr ++ ca)) (wh W2)); [apply reaches_refl|].
+        unfold fallH, upd; simpl. f_equal. solve_len.
+  Qed.
+
+  (* ---------------------------------------------------------------- assignment *)
+
+  Lemma eval_SetVA : forall f x o e1 env st,
+    eval (S f) (SetV x o e1) env st =
+    match eval f e1 env st with
+    | SVal w st1 =>
+        match o with
+        | Global => SVal (SLit LVoid) (mkstore (cells st1) (glob_set x w (sglobals st1)))
+        | Local _ =>
+            match env_lookup (x, o) env with
+            | Some a => SVal (SLit LVoid) (mkstore (cell_set (cells st1) a w) (sglobals st1))
+            | None => SErr EStuck
+            end
+        end
+    | r => r
+    end.
+  Proof. reflexivity. Qed.
+
+  Definition set_coreA (svs : nat -> list name) (cur : fctxA) (x : name) (m : nat) (e1 : ast) : code :=
+    generate false svs (lctxA cur) e1 ++ gen_non_global_ref svs (lctxA cur) x (Local m) false ++ [ISetCdr].
+
+  Lemma generate_SetVA : forall tl svs cur x m e1, agrees svs -> fragA cur (SetV x (Local m) e1) = true ->
+    generate tl svs (lctxA cur) (SetV x (Local m) e1) = set_coreA svs cur x m e1 ++ [IPush LVoid].
+  Proof.
+    intros tl svs cur x m e1 Hag H. simpl in H. apply andb_true_iff in H. destruct H as [H _].
+    apply andb_true_iff in H. destruct H as [Hres Hbx]. unfold boxedv in Hbx.
+    destruct cur as [[[[id ps] ls] cfv]|]; [|discriminate Hres].
+    unfold set_coreA. simpl. rewrite (Hag m), Hbx. unfold gen_ref. rewrite <- !app_assoc. reflexivity.
+  Qed.
+
+  Lemma core_stepA : forall f, (forall e, simA_at f e) ->
+    forall cur x m e1 env st v st', fragA cur (SetV x (Local m) e1) = true ->
+    eval (S f) (SetV x (Local m) e1) env st = SVal v st' ->
+    forall svs s pre post W, agrees svs ->
+    at_code s pre (set_coreA svs cur x m e1) post ->
+    wh W = heap s -> wc W = cells st -> WINV W -> env_okA cur env (sglobals st) W s ->
+    v = SLit LVoid /\ sglobals st' = sglobals st /\
+    exists W', wext W W' /\ wc W' = cells st' /\ WINV W' /\
+               reaches s (upd s (stk s) (length pre + length (set_coreA svs cur x m e1)) (wh W')).
+  Proof.
+    intros f IH cur x m e1 env st v st' Hp He svs s pre post W Hag Hat HWh HWc HI Hok.
+    rewrite eval_SetVA in He.
+    destruct (eval f e1 env st) as [w1 st1| |] eqn:E1; try discriminate.
+    simpl in Hp. apply andb_true_iff in Hp. destruct Hp as [Hp Hp1]. apply andb_true_iff in Hp. destruct Hp as [Hres Hbx].
+    unfold set_coreA in *.
+    set (c1 := generate false svs (lctxA cur) e1) in *.
+    set (cf := gen_non_global_ref svs (lctxA cur) x (Local m) false) in *.
+    assert (Hcfl : length cf = 1) by (apply gen_fetchA_length; auto).
+    destruct Hat as [Hcode Hip].
+    assert (Hat1 : at_code s pre c1 ((cf ++ [ISetCdr]) ++ post)) by (split; auto; rewrite Hcode; norm_code).
+    destruct (IH e1 cur env st w1 st1 Hp1 E1 false svs s pre _ W Hag Hat1 HWh HWc HI Hok)
+      as (Hsg1 & W1 & v1 & HE1 & HWc1 & HI1 & Hv1 & Hout1).
+    apply outcomeH_false in Hout1. fold c1 in Hout1. set (s1 := fallH s v1 pre c1 (wh W1)) in *.
+    pose proof HI as (HB & _).
+    assert (Hok1 : env_okA cur env (sglobals st) W1 s1) by (eapply (env_okA_mono cur env _ W W1 s s1 [v1]); eauto).
+    assert (Hat2 : at_code s1 (pre ++ c1) cf ([ISetCdr] ++ post)).
+    { split; simpl; [|rewrite app_length; reflexivity]. rewrite Hcode. norm_code. }
+    destruct (fetch_varA cur env _ W1 s1 svs s1 [] [] x m _ _ Hok1 Hres eq_refl eq_refl eq_refl
+                (eq_sym (app_nil_r _)) Hat2) as (vb & l & Hl & Hvr & Hstep2).
+    destruct Hvr as (m' & Hm' & [(_ & bx & -> & Hwb) | (Hnb & _)]); simpl in Hm'; inversion Hm'; subst m';
+      [|unfold boxedv in *; simpl in Hnb; congruence].
+    rewrite Hl in He. inversion He; subst v st'. split; auto. split; [simpl; exact Hsg1|].
+    destruct HI1 as (HB1 & HI1b & HJ1). destruct (HI1b l bx Hwb) as (nm & vold & wold & Hhb & Hcl & _).
+    set (s2 := upd s1 (VPair bx :: stk s1) (S (ip s1)) (heap s1)) in *.
+    assert (Hat3 : at_code s2 (pre ++ c1 ++ cf) [ISetCdr] post).
+    { split; simpl; [|solve_len]. rewrite Hcode. norm_code. }
+    pose proof (step_set_cdr_box s2 _ _ bx v1 (stk s) nm vold Hat3 eq_refl Hhb) as Hstep3.
+    set (W2 := wset W1 l bx nm v1 w1).
+    exists W2. split; [eapply wext_trans; [exact HE1|apply wset_ext; auto]|].
+    split; [simpl; rewrite HWc1; reflexivity|].
+    split; [apply wset_INV; auto; split; auto|].
+    eapply reaches_trans; [exact Hout1|]. eapply reaches_trans; [apply reaches_step; exact Hstep2|].
+    apply reaches_step. etransitivity; [exact Hstep3|]. unfold upd; simpl. f_equal. f_equal. solve_len.
+  Qed.
+
+
+  (* ---------------------------------------------------------------- sequences *)
+
+  Lemma simA_seq : forall f, (forall f', f' <= f -> forall e, simA_at f' e) ->
+    forall cur es env st v st', es <> [] -> forallb (fragA cur) es = true ->
+    eval_seq f env es st = SVal v st' ->
+    forall tl svs s pre post W, agrees svs ->
+    at_code s pre (gen_seq tl svs (lctxA cur) es) post ->
+    wh W = heap s -> wc W = cells st -> WINV W -> env_okA cur env (sglobals st) W s ->
+    sglobals st' = sglobals st /\ resA tl s pre (gen_seq tl svs (lctxA cur) es) W v st'.
+  Proof.
+    intros f IHle cur es. induction es as [|a r IHr]; intros env st v st' Hne Hp He tl svs s pre post W Hag Hat HWh HWc HI Hok.
+    - congruence.
+    - simpl in Hp. apply andb_true_iff in Hp. destruct Hp as [Hpa Hpr].
+      destruct r as [|b r'].
+      + simpl in He, Hat |- *. eapply (IHle f (le_n f)); eauto.
+      + change (eval_seq f env (a :: b :: r') st) with
+          (match eval f a env st with SVal _ st1 => eval_seq f env (b :: r') st1 | x => x end) in He.
+        destruct (eval f a env st) as [va st1| |] eqn:Ea; try discriminate.
+        change (gen_seq tl svs (lctxA cur) (a :: b :: r')) with
+          ((if is_lit a then [] else drop_prev a (generate false svs (lctxA cur) a)) ++ gen_seq tl svs (lctxA cur) (b :: r')) in *.
+        assert (Hne2 : b :: r' <> []) by congruence.
+        set (cr := gen_seq tl svs (lctxA cur) (b :: r')) in *.
+        pose proof HI as (HB & _).
+        destruct Hat as [Hcode Hip].
+        (* the rest of the sequence from a state with the stack of s *)
+        assert (Hcont : forall ca W1, code_of (self s) = pre ++ (ca ++ cr) ++ post ->
+                  reaches s (upd s (stk s) (length pre + length ca) (wh W1)) ->
+                  wext W W1 -> wc W1 = cells st1 -> WINV W1 -> sglobals st1 = sglobals st ->
+                  sglobals st' = sglobals st /\ resA tl s pre (ca ++ cr) W v st').
+        { intros ca W1 Hcode1 Hreach HE1 HWc1 HI1 Hsg1.
+          set (s2 := upd s (stk s) (length pre + length ca) (wh W1)) in *.
+          assert (Hat3 : at_code s2 (pre ++ ca) cr post).
+          { split; simpl; [|solve_len]. rewrite Hcode1. norm_code. }
+          assert (Hok2 : env_okA cur env (sglobals st1) W1 s2).
+          { rewrite Hsg1. eapply (env_okA_mono cur env _ W W1 s s2 []); eauto. }
+          destruct (IHr env st1 v st' Hne2 Hpr He tl svs s2 _ post W1 Hag Hat3 eq_refl HWc1 HI1 Hok2) as (Hsg2 & Hres).
+          split; [congruence|]. fold cr in Hres.
+          eapply (resA_cont tl s s2 pre (pre ++ ca) (ca ++ cr) cr W W1); eauto.
+          intros v0 h0. rewrite (fallH_eq s s2 v0 pre (pre ++ ca) (ca ++ cr) cr h0); auto; [apply reaches_refl | solve_len]. }
+        destruct (is_lit a) eqn:La.
+        * destruct a; try discriminate La. destruct f; [discriminate Ea|]. rewrite eval_Lit in Ea. inversion Ea; subst st1.
+          assert (Hre : reaches s (upd s (stk s) (length pre + length (@nil instr)) (wh W))).
+          { simpl. rewrite Nat.add_0_r, <- Hip, HWh. destruct s; apply reaches_refl. }
+          exact (Hcont [] W Hcode Hre (wext_refl W HB) HWc HI eq_refl).
+        * destruct (is_set_or_lit a) eqn:Esl.
+          -- (* a set!: the trailing PUSH is rewound *)
+             destruct a as [l | x o | x o e1 | | | | | ]; try discriminate Esl; try discriminate La.
+             destruct o as [|m]; [discriminate Hpa|].
+             assert (Hd : drop_prev (SetV x (Local m) e1) (generate false svs (lctxA cur) (SetV x (Local m) e1))
+                          = set_coreA svs cur x m e1).
+             { unfold drop_prev. simpl is_set_or_lit. cbv iota. rewrite generate_SetVA by auto. apply removelast_last. }
+             rewrite Hd in *. set (ca := set_coreA svs cur x m e1) in *.
+             destruct f as [|f0]; [discriminate Ea|].
+             assert (Hat1 : at_code s pre ca (cr ++ post)) by (split; auto; rewrite Hcode; norm_code).
+             assert (IH0 : forall e, simA_at f0 e) by (intro e; apply IHle; lia).
+             destruct (core_stepA f0 IH0 cur x m e1 env st va st1 Hpa Ea svs s pre _ W Hag Hat1 HWh HWc HI Hok)
+               as (_ & Hsg1 & W1 & HE1 & HWc1 & HI1 & Hreach).
+             assert (Hc1 : code_of (self s) = pre ++ (ca ++ cr) ++ post) by (rewrite Hcode; norm_code).
+             exact (Hcont ca W1 Hc1 Hreach HE1 HWc1 HI1 Hsg1).
+          -- (* any other expression: evaluated, dropped *)
+             assert (Hd : drop_prev a (generate false svs (lctxA cur) a) = generate false svs (lctxA cur) a ++ [IDrop]).
+             { unfold drop_prev. rewrite Esl. reflexivity. }
+             rewrite Hd in *. set (ca := generate false svs (lctxA cur) a) in *.
+             assert (Hat1 : at_code s pre ca ([IDrop] ++ cr ++ post)) by (split; auto; rewrite Hcode; norm_code).
+             destruct (IHle f (le_n f) a cur env st va st1 Hpa Ea false svs s pre _ W Hag Hat1 HWh HWc HI Hok)
+               as (Hsg1 & W1 & v1 & HE1 & HWc1 & HI1 & Hv1 & Hout1).
+             apply outcomeH_false in Hout1. fold ca in Hout1. set (s1 := fallH s v1 pre ca (wh W1)) in *.
+             assert (Hat2 : at_code s1 (pre ++ ca) [IDrop] (cr ++ post)).
+             { split; simpl; [|rewrite app_length; reflexivity]. rewrite Hcode. norm_code. }
+             pose proof (step_drop s1 _ _ v1 (stk s) Hat2 eq_refl) as Hstep.
+             assert (Hc1 : code_of (self s) = pre ++ ((ca ++ [IDrop]) ++ cr) ++ post) by (rewrite Hcode; norm_code).
+             assert (Hre : reaches s (upd s (stk s) (length pre + length (ca ++ [IDrop])) (wh W1))).
+             { eapply reaches_trans; [exact Hout1|]. apply reaches_step. etransitivity; [exact Hstep|].
+               unfold upd; simpl. f_equal. f_equal. solve_len. }
+             exact (Hcont (ca ++ [IDrop]) W1 Hc1 Hre HE1 HWc1 HI1 Hsg1).
+  Qed.
+
+
+  (* ---------------------------------------------------------------- the main induction *)
+
+  Lemma generate_Lam_A : forall tl svs cur id ps ls fv b,
+    generate tl svs cur (Lam id ps None ls (SV id) fv b) =
+    let body := entryA (fun m => if Nat.eqb m id then SV id else svs m) id ps ls fv b in
+    match fv with
+    | [] => [IPushProc 0 (length ps) body]
+    | _ :: _ => [IPush LVoid; IPush (LInt (Z.of_nat (length fv))); IMakeVector]
+                ++ closure_fill svs cur 0 fv ++ [IMakeProc 0 (length ps) body]
+    end.
+  Proof. intros. destruct fv; reflexivity. Qed.
+
+  Lemma vrelW_clo_inv : forall W v id ps r ls b cenv, vrelW W v (SClo id ps r ls b cenv) ->
+    r = None /\ nodupb (ps ++ ls) = true /\ nodupb (SV id) = true /\
+    forallb (fun x => memn x (ps ++ ls)) (SV id) = true /\
+    exists fv svs' vars els,
+      fragA (Some (id, ps, ls, fv)) b = true /\ agrees svs' /\
+      (forall p, In p fv -> exists m, snd p = Local m /\ m <> id) /\
+      vec_ok W fv vars els /\ fvrelW W cenv fv els /\
+      v = VProc 0 (length ps) (entryA svs' id ps ls fv b) vars.
+  Proof.
+    intros W v id ps r ls b cenv H.
+    inversion H as [| | id0 ps0 ls0 b0 cenv0 fv svs' vars els Hnd Hndsv Hsvin Hfr Hag Hown Hvec HF]; subst.
+    split; [reflexivity|]. split; [exact Hnd|]. split; [exact Hndsv|]. split; [exact Hsvin|].
+    exists fv, svs', vars, els. split; [exact Hfr|]. split; [exact Hag|]. split; [exact Hown|]. split; [exact Hvec|].
+    split; [apply fvrelW_of_clo; exact HF | reflexivity].
+  Qed.
+
+  Lemma simA_step : forall f, (forall f', f' <= f -> forall e, simA_at f' e) -> forall e, simA_at (S f) e.
+  Proof.
+    intros f IHle e cur env st v st' Hp He tl svs s pre post W Hag Hat HWh HWc HI Hok.
+    assert (IH : forall e, simA_at f e) by (intro e0; apply IHle; lia).
+    pose proof HI as (HB & HIb & HIj).
+    destruct e as [l | x o | x o e1 | t p e2 | es | id ps r ls sv fv b | g args | p args]; try discriminate Hp.
+    - (* Lit *)
+      rewrite eval_Lit in He. inversion He; subst. split; auto.
+      exists W, (VLit l). split; [apply wext_refl; auto|]. split; auto. split; auto. split; [constructor|].
+      simpl generate in *. rewrite HWh. eapply leafH; eauto. eapply step_push; eauto.
+    - (* Ref *)
+      destruct o as [|m].
+      + rewrite eval_Ref_global in He. destruct (glob_lookup x (sglobals st)) as [w|] eqn:Eg; try discriminate.
+        inversion He; subst. split; auto.
+        destruct Hok as (_ & _ & HG). destruct (HG x v Eg) as (v' & Ha & Hv).
+        exists W, v'. split; [apply wext_refl; auto|]. split; auto. split; auto. split; auto.
+        simpl generate in *. rewrite HWh. eapply leafH; eauto. eapply step_global_ref; eauto.
+      + simpl in Hp.
+        assert (Hgen : generate tl svs (lctxA cur) (Ref x (Local m))
+                       = gen_non_global_ref svs (lctxA cur) x (Local m) false ++ (if boxedv x m then [ICdr] else [])).
+        { destruct cur as [[[[id0 ps0] ls0] cfv0]|]; [|discriminate Hp].
+          simpl. unfold gen_non_global_ref. simpl. rewrite (Hag m). unfold boxedv.
+          destruct (memn x (SV m)); rewrite <- ?app_assoc; reflexivity. }
+        set (cf := gen_non_global_ref svs (lctxA cur) x (Local m) false) in *.
+        rewrite Hgen in *.
+        assert (Hcfl : length cf = 1) by (apply gen_fetchA_length; auto).
+        destruct Hat as [Hcode Hip].
+        assert (Hat1 : at_code s pre cf ((if boxedv x m then [ICdr] else []) ++ post)) by (split; auto; rewrite Hcode; norm_code).
+        destruct (fetch_varA cur env _ W s svs s [] [] x m pre _ Hok Hp eq_refl eq_refl eq_refl
+                    (eq_trans (eq_sym HWh) (eq_sym (app_nil_r _))) Hat1) as (vb & l & Hl & Hvr & Hstep1).
+        rewrite eval_Ref_local, Hl in He.
+        destruct Hvr as (m' & Hm' & Hcase). simpl in Hm'. inversion Hm'; subst m'. simpl fst in Hcase.
+        destruct Hcase as [(Hbx & bx & -> & Hwb) | (Hbx & Hwb & w & Hcw & Hvw)]; rewrite Hbx in *.
+        * (* boxed: the content of the box *)
+          destruct (HIb l bx Hwb) as (nm & vc & wc0 & Hhb & Hcl & Hvc).
+          rewrite HWc in Hcl. rewrite Hcl in He. inversion He; subst. split; auto.
+          set (s1 := upd s (VPair bx :: stk s) (S (ip s)) (heap s)) in *.
+          assert (Hat2 : at_code s1 (pre ++ cf) [ICdr] post).
+          { split; simpl; [|solve_len]. rewrite Hcode. norm_code. }
+          assert (Hhb1 : nth_error (heap s1) bx = Some (HPair nm vc)) by (simpl; rewrite <- HWh; exact Hhb).
+          pose proof (step_cdr s1 _ _ bx (stk s) nm vc Hat2 eq_refl Hhb1) as Hstep2.
+          exists W, vc. split; [apply wext_refl; auto|]. split; auto. split; auto. split; auto.
+          left. eapply reaches_trans; [apply reaches_step; exact Hstep1|]. apply reaches_step.
+          etransitivity; [exact Hstep2|]. unfold fallH, upd; simpl. rewrite HWh. f_equal. f_equal. solve_len.
+        * rewrite HWc in Hcw. rewrite Hcw in He. inversion He; subst. split; auto.
+          exists W, vb. split; [apply wext_refl; auto|]. split; auto. split; auto. split; auto.
+          left. apply reaches_step. etransitivity; [exact Hstep1|].
+          unfold fallH, upd; simpl. rewrite HWh, app_nil_r. f_equal. f_equal. lia.
+    - (* SetV *)
+      destruct o as [|m]; [discriminate Hp|].
+      rewrite generate_SetVA in * by auto.
+      set (cc := set_coreA svs cur x m e1) in *.
+      destruct Hat as [Hcode Hip].
+      assert (Hat1 : at_code s pre cc ([IPush LVoid] ++ post)) by (split; auto; rewrite Hcode; norm_code).
+      destruct (core_stepA f IH cur x m e1 env st v st' Hp He svs s pre _ W Hag Hat1 HWh HWc HI Hok)
+        as (-> & Hsg & W1 & HE1 & HWc1 & HI1 & Hreach).
+      split; auto.
+      set (s1 := upd s (stk s) (length pre + length cc) (wh W1)) in *.
+      assert (Hat2 : at_code s1 (pre ++ cc) [IPush LVoid] post).
+      { split; simpl; [|rewrite app_length; reflexivity]. rewrite Hcode. norm_code. }
+      pose proof (step_push s1 _ _ _ Hat2) as Hstep.
+      exists W1, (VLit LVoid). split; auto. split; auto. split; auto. split; [constructor|].
+      left. eapply reaches_trans; [exact Hreach|]. apply reaches_step. etransitivity; [exact Hstep|].
+      unfold fallH, upd; simpl. f_equal. f_equal. solve_len.
+    - (* Cnd *)
+      simpl in Hp. apply andb_true_iff in Hp. destruct Hp as [Hp Hpf]. apply andb_true_iff in Hp. destruct Hp as [Hpt Hpp].
+      rewrite eval_Cnd in He.
+      destruct (eval f t env st) as [vt st1| |] eqn:Et; try discriminate.
+      simpl generate in *.
+      set (ct := generate false svs (lctxA cur) t) in *.
+      set (cp := generate tl svs (lctxA cur) p) in *.
+      set (cf := generate tl svs (lctxA cur) e2) in *.
+      destruct Hat as [Hcode Hip].
+      assert (Hat1 : at_code s pre ct (([IJumpUnless (S (length cp))] ++ cp ++ [IJump (length cf)] ++ cf) ++ post)).
+      { split; auto; rewrite Hcode; norm_code. }
+      destruct (IH t cur env st vt st1 Hpt Et false svs s pre _ W Hag Hat1 HWh HWc HI Hok)
+        as (Hsg1 & W1 & v1 & HE1 & HWc1 & HI1 & Hv1 & Hout1).
+      apply outcomeH_false in Hout1. fold ct in Hout1. set (s1 := fallH s v1 pre ct (wh W1)) in *.
+      assert (Hat2 : at_code s1 (pre ++ ct) [IJumpUnless (S (length cp))] (cp ++ [IJump (length cf)] ++ cf ++ post)).
+      { split; simpl; [|rewrite app_length; reflexivity]. rewrite Hcode. norm_code. }
+      destruct (sval_false_decW _ _ _ Hv1) as [[-> ->] | [Hw Hv]].
+      + pose proof (step_jump_unless_false s1 _ _ _ (stk s) Hat2 eq_refl) as Hstep.
+        set (s2 := upd s1 (stk s) (S (ip s1) + S (length cp)) (heap s1)) in *.
+        assert (Hat3 : at_code s2 (pre ++ ct ++ [IJumpUnless (S (length cp))] ++ cp ++ [IJump (length cf)]) cf post).
+        { split; simpl; [|solve_len]. rewrite Hcode. norm_code. }
+        assert (Hok2 : env_okA cur env (sglobals st1) W1 s2).
+        { rewrite Hsg1. eapply (env_okA_mono cur env _ W W1 s s2 []); eauto. }
+        destruct (IH e2 cur env st1 v st' Hpf He tl svs s2 _ post W1 Hag Hat3 eq_refl HWc1 HI1 Hok2) as (Hsg2 & Hres).
+        split; [congruence|]. fold cf in Hres.
+        eapply (resA_cont tl s s2 pre _ _ cf W W1); eauto.
+        * eapply reaches_trans; [exact Hout1|]. apply reaches_step. exact Hstep.
+        * intros v0 h0. rewrite (fallH_eq s s2 v0 pre _ (ct ++ IJumpUnless (S (length cp)) :: cp ++ IJump (length cf) :: cf) cf h0); auto;
+            [apply reaches_refl | solve_len].
+      + assert (Hep : eval f p env st1 = SVal v st').
+        { destruct vt as [[z|[|]| | | |] | |]; try exact He; congruence. }
+        pose proof (step_jump_unless_true s1 _ _ _ v1 (stk s) Hat2 eq_refl Hv) as Hstep.
+        set (s2 := upd s1 (stk s) (S (ip s1)) (heap s1)) in *.
+        assert (Hat3 : at_code s2 (pre ++ ct ++ [IJumpUnless (S (length cp))]) cp ([IJump (length cf)] ++ cf ++ post)).
+        { split; simpl; [|solve_len]. rewrite Hcode. norm_code. }
+        assert (Hok2 : env_okA cur env (sglobals st1) W1 s2).
+        { rewrite Hsg1. eapply (env_okA_mono cur env _ W W1 s s2 []); eauto. }
+        destruct (IH p cur env st1 v st' Hpp Hep tl svs s2 _ _ W1 Hag Hat3 eq_refl HWc1 HI1 Hok2) as (Hsg2 & Hres).
+        split; [congruence|]. fold cp in Hres.
+        eapply (resA_cont tl s s2 pre _ _ cp W W1); eauto.
+        * eapply reaches_trans; [exact Hout1|]. apply reaches_step. exact Hstep.
+        * intros v0 h0.
+          set (s3 := fallH s2 v0 (pre ++ ct ++ [IJumpUnless (S (length cp))]) cp h0).
+          assert (Hat4 : at_code s3 (pre ++ ct ++ [IJumpUnless (S (length cp))] ++ cp) [IJump (length cf)] (cf ++ post)).
+          { split; simpl; [|solve_len]. rewrite Hcode. norm_code. }
+          apply reaches_step. rewrite (step_jump s3 _ _ _ Hat4).
+          unfold fallH, upd; simpl. f_equal. f_equal. solve_len.
+    - (* Seq *)
+      rewrite eval_Seq in He. rewrite generate_Seq in *.
+      simpl in Hp. destruct es as [|a r0]; try discriminate Hp.
+      eapply (simA_seq f IHle cur (a :: r0)); eauto. congruence.
+    - (* Lam *)
+      simpl in Hp. destruct r; try discriminate Hp.
+      apply andb_true_iff in Hp. destruct Hp as [Hp Hfb]. apply andb_true_iff in Hp. destruct Hp as [Hp Hfvok].
+      apply andb_true_iff in Hp. destruct Hp as [Hp Hsvin]. apply andb_true_iff in Hp. destruct Hp as [Hp Hndsv].
+      apply andb_true_iff in Hp. destruct Hp as [Hnd Hsveq]. apply names_eqb_eq in Hsveq. subst sv.
+      rewrite eval_Lam in He. inversion He; subst. split; auto.
+      rewrite generate_Lam_A in *. cbv zeta in *.
+      set (svs' := fun m => if Nat.eqb m id then SV id else svs m) in *.
+      assert (Hag' : agrees svs').
+      { intro m. unfold svs'. destruct (Nat.eqb m id) eqn:E; auto. apply Nat.eqb_eq in E. subst; reflexivity. }
+      assert (Hown : forall p, In p fv -> exists m, snd p = Local m /\ m <> id).
+      { intros p Hin. unfold fv_okA in Hfvok. rewrite forallb_forall in Hfvok. specialize (Hfvok p Hin).
+        destruct (snd p) as [|m]; [discriminate|]. apply andb_true_iff in Hfvok. destruct Hfvok as [Hne _].
+        exists m. split; auto. apply negb_true_iff in Hne. apply Nat.eqb_neq in Hne. exact Hne. }
+      set (body := entryA svs' id ps ls fv b) in *.
+      destruct fv as [|p0 fvt].
+      + exists W, (VProc 0 (length ps) body (VLit LVoid)). split; [apply wext_refl; auto|]. split; auto. split; auto. split.
+        * eapply (VW_clo W id ps ls b env [] svs' (VLit LVoid) []); eauto; try (simpl; auto); try constructor.
+        * rewrite HWh. eapply leafH; eauto. eapply step_push_proc; eauto.
+      + set (fv := p0 :: fvt) in *. set (n := length fv) in *.
+        set (cfill := closure_fill svs (lctxA cur) 0 fv) in *.
+        set (imk := IMakeProc 0 (length ps) body) in *.
+        set (a := length (wh W)).
+        destruct Hat as [Hcode Hip].
+        assert (Hat1 : at_code s pre [IPush LVoid] (([IPush (LInt (Z.of_nat n)); IMakeVector] ++ cfill ++ [imk]) ++ post)).
+        { split; auto; rewrite Hcode; norm_code. }
+        pose proof (step_push s _ _ _ Hat1) as Hstep1.
+        set (s1 := upd s (VLit LVoid :: stk s) (S (ip s)) (heap s)) in *.
+        assert (Hat2 : at_code s1 (pre ++ [IPush LVoid]) [IPush (LInt (Z.of_nat n))] (([IMakeVector] ++ cfill ++ [imk]) ++ post)).
+        { split; simpl; [|solve_len]. rewrite Hcode. norm_code. }
+        pose proof (step_push s1 _ _ _ Hat2) as Hstep2.
+        set (s2 := upd s1 (VLit (LInt (Z.of_nat n)) :: stk s1) (S (ip s1)) (heap s1)) in *.
+        assert (Hat3 : at_code s2 (pre ++ [IPush LVoid; IPush (LInt (Z.of_nat n))]) [IMakeVector] ((cfill ++ [imk]) ++ post)).
+        { split; simpl; [|solve_len]. rewrite Hcode. norm_code. }
+        pose proof (step_make_vector s2 _ _ n (VLit LVoid) (stk s) Hat3 eq_refl) as Hstep3.
+        set (s3 := upd s2 (VVec (length (heap s2)) :: stk s) (S (ip s2)) (heap s2 ++ [HVec (repeat (VLit LVoid) n)])) in *.
+        assert (Hat4 : at_code s3 (pre ++ [IPush LVoid; IPush (LInt (Z.of_nat n)); IMakeVector]) cfill ([imk] ++ post)).
+        { split; simpl; [|solve_len]. rewrite Hcode. norm_code. }
+        assert (Hstk3 : stk s3 = VVec a :: stk s) by (simpl; unfold a; rewrite HWh; reflexivity).
+        assert (Hheap3 : heap s3 = wh W ++ [HVec (repeat (VLit LVoid) n)]) by (simpl; rewrite HWh; reflexivity).
+        destruct (fill_loopA cur env _ W s svs id Hok fv 0 (repeat (VLit LVoid) n) s3 _ _ a Hfvok Hat4
+                    eq_refl eq_refl Hstk3 eq_refl Hheap3 ltac:(rewrite repeat_length; reflexivity)) as (vals & Hreach & Hvals).
+        fold cfill in Hreach. simpl firstn in Hreach. simpl app in Hreach.
+        set (s4 := upd s3 (stk s3) (length (pre ++ [IPush LVoid; IPush (LInt (Z.of_nat n)); IMakeVector]) + length cfill)
+                       (wh W ++ [HVec vals])) in *.
+        assert (Hat5 : at_code s4 (pre ++ [IPush LVoid; IPush (LInt (Z.of_nat n)); IMakeVector] ++ cfill) [imk] post).
+        { split; simpl; [|solve_len]. rewrite Hcode. norm_code. }
+        pose proof (step_make_proc s4 _ _ _ _ _ (VVec a) (stk s) Hat5 Hstk3) as Hstep5.
+        set (W1 := walloc W (HVec vals)).
+        assert (HE1 : wext W W1) by (apply walloc_ext; auto).
+        exists W1, (VProc 0 (length ps) body (VVec a)). split; auto. split; auto. split; [apply walloc_INV; auto|]. split.
+        * eapply (VW_clo W1 id ps ls b env fv svs' (VVec a) vals); eauto.
+          -- simpl. exists a. split; auto. split; [unfold a; rewrite nth_error_app2 by lia; rewrite Nat.sub_diag; reflexivity|].
+             apply walloc_not_box; auto.
+          -- apply fvrelW_of_clo. eapply fvrelW_mono; eauto.
+        * left. eapply reaches_trans; [apply reaches_step; exact Hstep1|].
+          eapply reaches_trans; [apply reaches_step; exact Hstep2|].
+          eapply reaches_trans; [apply reaches_step; exact Hstep3|].
+          eapply reaches_trans; [exact Hreach|].
+          apply reaches_step. etransitivity; [exact Hstep5|]. unfold fallH, upd; simpl. f_equal. f_equal. solve_len.
+    - (* App *)
+      simpl in Hp. apply andb_true_iff in Hp. destruct Hp as [Hpg Hpa].
+      rewrite eval_App in He.
+      destruct (evlist (eval f) (rev args) env st) as [[rvs st1]|x] eqn:Eargs;
+        [|exfalso; exact (evlist_inr _ _ _ _ _ Eargs _ _ He)].
+      cbv zeta in He.
+      destruct (eval f g env st1) as [wf st2| |] eqn:Eg; [| simpl in He; discriminate He | simpl in He; discriminate He].
+      rewrite generate_App in *.
+      set (cargs := gen_args svs (lctxA cur) args) in *.
+      set (cg := generate false svs (lctxA cur) g) in *.
+      set (icall := if tl then ITailCall (length args) else ICall (length args)) in *.
+      destruct Hat as [Hcode Hip].
+      assert (Hat1 : at_code s pre cargs ((cg ++ [icall]) ++ post)) by (split; auto; rewrite Hcode; norm_code).
+      destruct (simA_args f IH cur args env st rvs st1 Hpa Eargs svs s pre _ W Hag Hat1 HWh HWc HI Hok)
+        as (Hsg1 & W1 & vargs & HE1 & HWc1 & HI1 & Hvargs & Hr1).
+      fold cargs in Hr1. set (s1 := upd s (vargs ++ stk s) (length pre + length cargs) (wh W1)) in *.
+      assert (Hat2 : at_code s1 (pre ++ cargs) cg ([icall] ++ post)).
+      { split; simpl; [|rewrite app_length; reflexivity]. rewrite Hcode. norm_code. }
+      assert (Hok1 : env_okA cur env (sglobals st1) W1 s1).
+      { rewrite Hsg1. eapply (env_okA_mono cur env _ W W1 s s1 vargs); eauto. }
+      destruct (IH g cur env st1 wf st2 Hpg Eg false svs s1 _ _ W1 Hag Hat2 eq_refl HWc1 HI1 Hok1)
+        as (Hsg2 & W2 & vg & HE2 & HWc2 & HI2 & Hvg & Hout2).
+      apply outcomeH_false in Hout2. fold cg in Hout2. set (s2 := fallH s1 vg (pre ++ cargs) cg (wh W2)) in *.
+      destruct wf as [lw | xw yw | cid cps cr cls cb cenv]; try discriminate He.
+      destruct (vrelW_clo_inv _ _ _ _ _ _ _ _ Hvg) as (-> & Hnd & Hndsv & Hsvin & cfv & svs' & cvars & cels & Hfb & Hag' & Hown & Hcvars & Hcfv & ->).
+      set (vs := rev rvs) in *.
+      destruct (length vs <? length cps) eqn:E1; try discriminate He.
+      destruct (length cps <? length vs) eqn:E2; try discriminate He.
+      apply Nat.ltb_ge in E1. apply Nat.ltb_ge in E2.
+      assert (Hlvs : length vs = length cps) by lia.
+      rewrite (bind_all_app_eq cid cps cls vs cenv (cells st2) (fun e3 c3 => eval f cb e3 (mkstore c3 (sglobals st2))) Hlvs) in He.
+      assert (Hlargs : length args = length vargs).
+      { rewrite (Forall2_len _ _ _ Hvargs). unfold vs. rewrite rev_length. pose proof (evlist_length _ _ _ _ _ _ Eargs) as Hl.
+        rewrite rev_length in Hl. symmetry; exact Hl. }
+      pose proof HI1 as (HB1 & _). pose proof HI2 as (HB2 & _).
+      assert (Hvargs2 : Forall2 (vrelW W2) vargs vs) by exact (Forall2_vrelW_mono W1 W2 vargs vs HB1 HE2 Hvargs).
+      assert (HE02 : wext W W2) by (eapply wext_trans; eauto).
+      assert (Hgl2 : forall g0 w, glob_lookup g0 (sglobals st2) = Some w ->
+                      exists v0, assoc_nat g0 (globals s2) = Some v0 /\ vrelW W2 v0 w).
+      { intros g0 w Hg0. rewrite Hsg2, Hsg1 in Hg0.
+        destruct Hok as (_ & _ & HG). destruct (HG g0 w Hg0) as (v0 & Ha & Hv0). exists v0. split; [exact Ha|].
+        exact (vrelW_mono W W2 HB HE02 v0 w Hv0). }
+      set (proc := VProc 0 (length cps) (entryA svs' cid cps cls cfv cb) cvars) in *.
+      assert (Hat3 : at_code s2 (pre ++ cargs ++ cg) [icall] post).
+      { split; simpl; [|solve_len]. rewrite Hcode. norm_code. }
+      assert (Hstk2 : stk s2 = proc :: (vargs ++ stk s)) by reflexivity.
+      assert (Hreach2 : reaches s s2) by (eapply reaches_trans; eauto).
+      destruct tl.
+      + (* TAIL-CALL *)
+        destruct (frame_info s) as [[[[j rip] rself] rfp]|] eqn:Hfi.
+        * set (base := below (fp s - j) (stk s)).
+          destruct (call_closedA f IH s2 W2 cid cps cls cb cfv svs' cvars cels vargs vs base rfp rself rip cenv st2 v st'
+                      Hag' Hnd Hndsv Hsvin Hfb Hown Hcvars Hcfv eq_refl HWc2 HI2 Hlvs Hvargs2 Hgl2 He)
+            as (Hsg3 & sc & W' & v' & Hmc & HE' & HWc' & HI' & Hv' & Hreach).
+          split; [congruence|]. exists W', v'. split; [eapply wext_trans; eauto|]. split; auto. split; auto. split; auto.
+          right. split; auto. intros j' rip' rself' rfp' Hq Hj. rewrite Hfi in Hq. injection Hq as <- <- <- <-.
+          eapply reaches_trans; [exact Hreach2|].
+          assert (Hfi2 : frame_info s2 = Some (j, rip, rself, rfp)).
+          { eapply (frame_info_app s s2 (proc :: vargs)); eauto. }
+          assert (Hlt : fp s < length (stk s)) by (eapply frame_info_lt; eauto).
+          assert (Hn2 : length args <= length (vargs ++ stk s)) by (rewrite app_length; lia).
+          pose proof (step_tail_call s2 _ _ _ proc (vargs ++ stk s) j rip rself rfp Hat3 Hstk2 Hfi2 Hn2 Hj) as Hstep.
+          rewrite Hlargs, firstn_exact in Hstep.
+          change (proc :: vargs ++ stk s) with ((proc :: vargs) ++ stk s) in Hstep.
+          change (fp s2) with (fp s) in Hstep.
+          rewrite below_app in Hstep by lia. fold base in Hstep.
+          unfold proc in Hstep. rewrite Hmc in Hstep.
+          eapply reaches_trans; [apply reaches_step; exact Hstep|]. exact Hreach.
+        * destruct (call_closedA f IH s2 W2 cid cps cls cb cfv svs' cvars cels vargs vs [] 0 (VLit LVoid) 0 cenv st2 v st'
+                      Hag' Hnd Hndsv Hsvin Hfb Hown Hcvars Hcfv eq_refl HWc2 HI2 Hlvs Hvargs2 Hgl2 He)
+            as (Hsg3 & sc & W' & v' & _ & HE' & HWc' & HI' & Hv' & _).
+          split; [congruence|]. exists W', v'. split; [eapply wext_trans; eauto|]. split; auto. split; auto. split; auto.
+          right. split; auto. intros j' rip' rself' rfp' Hq. rewrite Hfi in Hq. discriminate Hq.
+      + (* CALL *)
+        destruct (call_closedA f IH s2 W2 cid cps cls cb cfv svs' cvars cels vargs vs (stk s) (fp s) (self s) (S (ip s2)) cenv st2 v st'
+                    Hag' Hnd Hndsv Hsvin Hfb Hown Hcvars Hcfv eq_refl HWc2 HI2 Hlvs Hvargs2 Hgl2 He)
+          as (Hsg3 & sc & W' & v' & Hmc & HE' & HWc' & HI' & Hv' & Hreach).
+        split; [congruence|]. exists W', v'. split; [eapply wext_trans; eauto|]. split; auto. split; auto. split; auto.
+        left. eapply reaches_trans; [exact Hreach2|].
+        pose proof (step_call s2 _ _ _ proc (vargs ++ stk s) Hat3 Hstk2) as Hstep.
+        rewrite Hlargs in Hstep. unfold proc in Hstep.
+        change (fp s2) with (fp s) in Hstep. change (self s2) with (self s) in Hstep.
+        rewrite Hmc in Hstep.
+        eapply reaches_trans; [apply reaches_step; exact Hstep|].
+        replace (fallH s v' pre (cargs ++ cg ++ [icall]) (wh W'))
+          with (mkst (v' :: stk s) (fp s) (self s) (S (ip s2)) (wh W') (globals s2)); [exact Hreach|].
+        unfold fallH, upd. f_equal. unfold s2; simpl. solve_len.
+    - (* OpApp *)
+      simpl in Hp. apply andb_true_iff in Hp. destruct Hp as [Hp Hall]. apply andb_true_iff in Hp. destruct Hp as [Hpp Hlen].
+      apply Nat.eqb_eq in Hlen. rewrite eval_OpApp in He.
+      destruct args as [|a [|b [|c0 args]]]; simpl in Hlen.
+      + destruct p; discriminate Hlen.
+      + assert (Ha1 : prim_arity p = 1) by auto.
+        assert (Hinv : (if prim_inverse p then [a] else rev [a]) = [a]) by (destruct (prim_inverse p); reflexivity).
+        rewrite Hinv in He. simpl evlist in He. simpl in Hall. apply andb_true_iff in Hall. destruct Hall as [Hpa _].
+        destruct (eval f a env st) as [va st1| |] eqn:Ea; try discriminate.
+        assert (Hinv2 : (if prim_inverse p then [va] else rev [va]) = [va]) by (destruct (prim_inverse p); reflexivity).
+        rewrite Hinv2 in He.
+        destruct (prim_sem p [va]) as [[rv|]|] eqn:Eprim; try discriminate. inversion He; subst rv st'. clear He.
+        rewrite gen_op1 in * by auto.
+        set (ca := generate false svs (lctxA cur) a) in *.
+        destruct Hat as [Hcode Hip].
+        assert (Hat1 : at_code s pre ca ([IPrim p] ++ post)) by (split; auto; rewrite Hcode; norm_code).
+        destruct (IH a cur env st va st1 Hpa Ea false svs s pre _ W Hag Hat1 HWh HWc HI Hok)
+          as (Hsg1 & W1 & v1 & HE1 & HWc1 & HI1 & Hv1 & Hout1).
+        apply outcomeH_false in Hout1. fold ca in Hout1. set (s1 := fallH s v1 pre ca (wh W1)) in *.
+        destruct (prim1_okW p _ _ _ _ (stk s) Ha1 Hv1 Eprim) as (r' & Hps & Hr).
+        assert (Hat2 : at_code s1 (pre ++ ca) [IPrim p] post).
+        { split; simpl; [|rewrite app_length; reflexivity]. rewrite Hcode. norm_code. }
+        pose proof (step_prim s1 _ _ _ _ _ Hat2 Hps) as Hstep.
+        split; auto. exists W1, r'. split; auto. split; auto. split; auto. split; auto.
+        left. eapply reaches_trans; [exact Hout1|]. apply reaches_step. etransitivity; [exact Hstep|].
+        unfold fallH, upd; simpl. f_equal. f_equal. solve_len.
+      + assert (Ha2 : prim_arity p = 2) by auto.
+        simpl in Hall. apply andb_true_iff in Hall. destruct Hall as [Hpa Hall].
+        apply andb_true_iff in Hall. destruct Hall as [Hpb _].
+        rewrite gen_op2 in * by auto.
+        destruct Hat as [Hcode Hip].
+        destruct (prim_inverse p) eqn:Einv.
+        * simpl evlist in He.
+          destruct (eval f a env st) as [va st1| |] eqn:Ea; try discriminate.
+          destruct (eval f b env st1) as [vb st2| |] eqn:Eb; try discriminate.
+          destruct (prim_sem p [va; vb]) as [[rv|]|] eqn:Eprim; try discriminate. inversion He; subst rv st'. clear He.
+          set (ca := generate false svs (lctxA cur) a) in *. set (cb := generate false svs (lctxA cur) b) in *.
+          assert (Hat1 : at_code s pre ca ((cb ++ [IPrim (prim_opcode p)]) ++ post)) by (split; auto; rewrite Hcode; norm_code).
+          destruct (IH a cur env st va st1 Hpa Ea false svs s pre _ W Hag Hat1 HWh HWc HI Hok)
+            as (Hsg1 & W1 & v1 & HE1 & HWc1 & HI1 & Hv1 & Hout1).
+          apply outcomeH_false in Hout1. fold ca in Hout1. set (s1 := fallH s v1 pre ca (wh W1)) in *.
+          assert (Hat2 : at_code s1 (pre ++ ca) cb ([IPrim (prim_opcode p)] ++ post)).
+          { split; simpl; [|rewrite app_length; reflexivity]. rewrite Hcode. norm_code. }
+          assert (Hok1 : env_okA cur env (sglobals st1) W1 s1).
+          { rewrite Hsg1. eapply (env_okA_mono cur env _ W W1 s s1 [v1]); eauto. }
+          destruct (IH b cur env st1 vb st2 Hpb Eb false svs s1 _ _ W1 Hag Hat2 eq_refl HWc1 HI1 Hok1)
+            as (Hsg2 & W2 & v2 & HE2 & HWc2 & HI2 & Hv2 & Hout2).
+          apply outcomeH_false in Hout2. fold cb in Hout2. set (s2 := fallH s1 v2 (pre ++ ca) cb (wh W2)) in *.
+          pose proof HI1 as (HB1 & _).
+          assert (Hv1' : vrelW W2 v1 va) by (eapply vrelW_mono; eauto).
+          destruct (prim2_okW p W2 v1 v2 va vb _ (stk s) HI2 Ha2 Hpp Hv1' Hv2 Eprim) as (r' & W3 & HE3 & HI3 & HWc3 & Hps & Hr).
+          rewrite Einv in Hps.
+          assert (Hat3 : at_code s2 (pre ++ ca ++ cb) [IPrim (prim_opcode p)] post).
+          { split; simpl; [|solve_len]. rewrite Hcode. norm_code. }
+          pose proof (step_prim s2 _ _ _ _ _ Hat3 Hps) as Hstep.
+          split; [congruence|]. exists W3, r'. split; [eapply wext_trans; [exact HE1|eapply wext_trans; eauto]|].
+          split; [congruence|]. split; auto. split; auto.
+          left. eapply reaches_trans; [exact Hout1|]. eapply reaches_trans; [exact Hout2|].
+          apply reaches_step. etransitivity; [exact Hstep|]. unfold fallH, upd; simpl. f_equal. f_equal. solve_len.
+        * simpl evlist in He.
+          destruct (eval f b env st) as [vb st1| |] eqn:Eb; try discriminate.
+          destruct (eval f a env st1) as [va st2| |] eqn:Ea; try discriminate.
+          simpl rev in He.
+          destruct (prim_sem p [va; vb]) as [[rv|]|] eqn:Eprim; try discriminate. inversion He; subst rv st'. clear He.
+          set (ca := generate false svs (lctxA cur) a) in *. set (cb := generate false svs (lctxA cur) b) in *.
+          assert (Hat1 : at_code s pre cb ((ca ++ [IPrim p]) ++ post)) by (split; auto; rewrite Hcode; norm_code).
+          destruct (IH b cur env st vb st1 Hpb Eb false svs s pre _ W Hag Hat1 HWh HWc HI Hok)
+            as (Hsg1 & W1 & v1 & HE1 & HWc1 & HI1 & Hv1 & Hout1).
+          apply outcomeH_false in Hout1. fold cb in Hout1. set (s1 := fallH s v1 pre cb (wh W1)) in *.
+          assert (Hat2 : at_code s1 (pre ++ cb) ca ([IPrim p] ++ post)).
+          { split; simpl; [|rewrite app_length; reflexivity]. rewrite Hcode. norm_code. }
+          assert (Hok1 : env_okA cur env (sglobals st1) W1 s1).
+          { rewrite Hsg1. eapply (env_okA_mono cur env _ W W1 s s1 [v1]); eauto. }
+          destruct (IH a cur env st1 va st2 Hpa Ea false svs s1 _ _ W1 Hag Hat2 eq_refl HWc1 HI1 Hok1)
+            as (Hsg2 & W2 & v2 & HE2 & HWc2 & HI2 & Hv2 & Hout2).
+          apply outcomeH_false in Hout2. fold ca in Hout2. set (s2 := fallH s1 v2 (pre ++ cb) ca (wh W2)) in *.
+          pose proof HI1 as (HB1 & _).
+          assert (Hv1' : vrelW W2 v1 vb) by (eapply vrelW_mono; eauto).
+          destruct (prim2_okW p W2 v2 v1 va vb _ (stk s) HI2 Ha2 Hpp Hv2 Hv1' Eprim) as (r' & W3 & HE3 & HI3 & HWc3 & Hps & Hr).
+          rewrite Einv in Hps.
+          assert (Hat3 : at_code s2 (pre ++ cb ++ ca) [IPrim p] post).
+          { split; simpl; [|solve_len]. rewrite Hcode. norm_code. }
+          pose proof (step_prim s2 _ _ _ _ _ Hat3 Hps) as Hstep.
+          split; [congruence|]. exists W3, r'. split; [eapply wext_trans; [exact HE1|eapply wext_trans; eauto]|].
+          split; [congruence|]. split; auto. split; auto.
+          left. eapply reaches_trans; [exact Hout1|]. eapply reaches_trans; [exact Hout2|].
+          apply reaches_step. etransitivity; [exact Hstep|]. unfold fallH, upd; simpl. f_equal. f_equal. solve_len.
+      + destruct p; discriminate Hlen.
+  Qed.
+
+  Lemma simA_all_le : forall f f', f' <= f -> forall e, simA_at f' e.
+  Proof.
+    induction f as [|f IH]; intros f' Hle e.
+    - assert (f' = 0) by lia. subst. intros cur env st v st' _ He. discriminate He.
+    - destruct (Nat.eq_dec f' (S f)) as [->|Hne].
+      + apply simA_step. exact IH.
+      + apply IH. lia.
+  Qed.
+
+  Theorem simA_all : forall f e, simA_at f e.
+  Proof. intros f e. apply (simA_all_le f f (le_n f)). Qed.
+
 End Full.
+
+(* ------------------------------------------------------------------ closed forms *)
+
+Theorem compile_correct_imperative_fragment : forall SV fuel e cur env st v st' tl svs s pre post W,
+  fragA SV cur e = true ->
+  eval fuel e env st = SVal v st' ->
+  agrees SV svs ->
+  code_of (self s) = pre ++ generate tl svs (lctxA cur) e ++ post -> ip s = length pre ->
+  wh W = heap s -> wc W = cells st -> WINV SV W ->
+  env_okA SV cur env (sglobals st) W s ->
+  sglobals st' = sglobals st /\
+  exists W' v', wext W W' /\ wc W' = cells st' /\ WINV SV W' /\ vrelW SV W' v' v /\
+    ((exists n, nsteps n s = Some (mkst (v' :: stk s) (fp s) (self s)
+                                        (length pre + length (generate tl svs (lctxA cur) e)) (wh W') (globals s)))
+     \/ (tl = true /\ forall j rip rself rfp, frame_info s = Some (j, rip, rself, rfp) -> j <= fp s ->
+           exists n, nsteps n s = Some (mkst (v' :: below (fp s - j) (stk s)) rfp rself rip (wh W') (globals s)))).
+Proof.
+  intros SV fuel e cur env st v st' tl svs s pre post W Hp He Hag Hc Hi HWh HWc HI Hok.
+  exact (simA_all SV fuel e cur env st v st' Hp He tl svs s pre post W Hag (conj Hc Hi) HWh HWc HI Hok).
+Qed.
+
+Lemma finish_returnH : forall s code v' h' j rip rself rfp,
+  code_of (self s) = code ++ [IRet] -> ip s = 0 ->
+  frame_info s = Some (j, rip, rself, rfp) -> j <= fp s ->
+  outcomeH true s [] code v' h' ->
+  reaches s (mkst (v' :: below (fp s - j) (stk s)) rfp rself rip h' (globals s)).
+Proof.
+  intros s code v' h' j rip rself rfp Hc Hi Hfi Hj [Hfall | [_ Hret]].
+  - eapply reaches_trans; [exact Hfall|].
+    set (se := fallH s v' [] code h') in *.
+    assert (Hate : at_code se code [IRet] []).
+    { split; [|reflexivity]. simpl. rewrite Hc. reflexivity. }
+    assert (Hfie : frame_info se = Some (j, rip, rself, rfp)).
+    { eapply (frame_info_app s se [v']); eauto. }
+    pose proof (step_ret se _ _ v' (stk s) j rip rself rfp Hate eq_refl Hfie Hj) as Hstep.
+    apply reaches_step. etransitivity; [exact Hstep|]. f_equal. f_equal. f_equal.
+    change (v' :: stk s) with ([v'] ++ stk s). apply below_app.
+    apply frame_info_lt in Hfi. change (fp se) with (fp s). lia.
+  - exact (Hret j rip rself rfp Hfi Hj).
+Qed.
+
+(** end to end for one top-level expression, from any world whose invariant holds and that represents the globals *)
+Theorem compile_correct_toplevel_expr_imperative : forall SV fuel e st v st' svs W gl,
+  fragA SV None e = true ->
+  eval fuel e [] st = SVal v st' ->
+  agrees SV svs -> wc W = cells st -> WINV SV W ->
+  (forall g w, glob_lookup g (sglobals st) = Some w -> exists v0, assoc_nat g gl = Some v0 /\ vrelW SV W v0 w) ->
+  exists s0 n v' s' W',
+    init_state (generate true svs None e ++ [IRet]) (wh W) gl = Next s0 /\
+    run n s0 = Done v' s' /\ wext W W' /\ heap s' = wh W' /\ wc W' = cells st' /\ WINV SV W' /\
+    vrelW SV W' v' v /\ globals s' = gl.
+Proof.
+  intros SV fuel e st v st' svs W gl Hp He Hag HWc HI Hgl.
+  set (code := generate true svs None e).
+  set (base := [VLit LVoid; VLit LVoid; VLit LVoid; VLit LVoid]).
+  set (s0 := mkst (vint 0 :: final_resumer :: vint 0 :: vint 0 :: base) (length base) (VProc 0 0 (code ++ [IRet]) (VLit LVoid)) 0 (wh W) gl).
+  assert (Hinit : init_state (code ++ [IRet]) (wh W) gl = Next s0).
+  { unfold init_state. rewrite make_call_fixed by (simpl; lia). reflexivity. }
+  assert (Hat : at_code s0 [] (generate true svs (lctxA None) e) [IRet]) by (split; reflexivity).
+  assert (Hok : env_okA SV None [] (sglobals st) W s0).
+  { split; [|split]; try (intros id ps ls fv Hc; discriminate Hc). exact Hgl. }
+  destruct (simA_all SV fuel e None [] st v st' Hp He true svs s0 [] [IRet] W Hag Hat eq_refl HWc HI Hok)
+    as (_ & W' & v' & HE' & HWc' & HI' & Hv' & Hout).
+  assert (Hfi : frame_info s0 = Some (0, 0, final_resumer, 0)) by apply (frame_info_entry 0 final_resumer 0 0 base).
+  pose proof (finish_returnH s0 code v' (wh W') 0 0 final_resumer 0 eq_refl eq_refl Hfi (Nat.le_0_l _) Hout) as [n Hn].
+  set (t := mkst (v' :: below (fp s0 - 0) (stk s0)) 0 final_resumer 0 (wh W') (globals s0)) in *.
+  exists s0, (n + 1), v', t, W'. split; [exact Hinit|].
+  split; [rewrite (run_nsteps n 1 s0 t Hn); reflexivity|].
+  split; [exact HE'|]. split; [reflexivity|]. split; [exact HWc'|]. split; [exact HI'|]. split; [exact Hv'|reflexivity].
+Qed.
+
+(* ------------------------------------------------------------------ the hypotheses are satisfiable *)
+
+(** ((lambda (n)
+        (define acc '())
+        (define (loop i) (if (< i 1) acc (begin (set! acc (cons i acc)) (loop (- i 1)))))
+        (loop n))
+     3)   =>  (1 2 3)
+    internal defines (boxed), a local recursive procedure that captures its own box and the box of acc, assignment to a
+    captured variable, tail calls *)
+Module ExampleFull.
+  Definition SV0 : nat -> list name := fun m => if Nat.eqb m 1 then [1; 2] else [].
+  Definition loop_body : ast :=
+    Cnd (OpApp PLt [Ref 3 (Local 2); Lit (LInt 1)]) (Ref 2 (Local 1))
+        (Seq [SetV 2 (Local 1) (OpApp PCons [Ref 3 (Local 2); Ref 2 (Local 1)]);
+              App (Ref 1 (Local 1)) [OpApp PSub [Ref 3 (Local 2); Lit (LInt 1)]]]).
+  Definition outer : ast :=
+    Lam 1 [0] None [1; 2] [1; 2] []
+        (Seq [SetV 2 (Local 1) (Lit LNil);
+              SetV 1 (Local 1) (Lam 2 [3] None [] [] [(1, Local 1); (2, Local 1)] loop_body);
+              App (Ref 1 (Local 1)) [Ref 0 (Local 1)]]).
+  Definition e0 : ast := App outer [Lit (LInt 3)].
+  Definition W0 : world := mkW [] [] (fun _ => None).
+  Definition st0 : sstore := mkstore [] [].
+
+  Example frag_e0 : fragA SV0 None e0 = true.
+  Proof. reflexivity. Qed.
+
+  Definition expected : sval := slist [SLit (LInt 1); SLit (LInt 2); SLit (LInt 3)].
+
+  Example eval_e0 : exists st', eval 40 e0 [] st0 = SVal expected st'.
+  Proof. eexists. vm_compute. reflexivity. Qed.
+
+  Example winv0 : WINV SV0 W0.
+  Proof. split; [|split]; intros; simpl in *; discriminate. Qed.
+
+  Example end_to_end : exists s0 n v' s' W' st',
+    init_state (generate true SV0 None e0 ++ [IRet]) [] [] = Next s0 /\
+    run n s0 = Done v' s' /\ heap s' = wh W' /\ vrelW SV0 W' v' expected /\ wc W' = cells st'.
+  Proof.
+    destruct eval_e0 as [st' He].
+    destruct (compile_correct_toplevel_expr_imperative SV0 40 e0 st0 _ st' SV0 W0 [] frag_e0 He (fun m => eq_refl) eq_refl winv0)
+      as (s0 & n & v' & s' & W' & Hi & Hr & _ & Hh & Hc & _ & Hv & _).
+    { intros g w Hg. discriminate Hg. }
+    exists s0, n, v', s', W', st'. auto.
+  Qed.
+
+  (** and observed directly on the model VM *)
+  Example run_e0 : exists s0 v' s', init_state (generate true SV0 None e0 ++ [IRet]) [] [] = Next s0 /\
+                                    run 400 s0 = Done v' s'.
+  Proof. eexists. eexists. eexists. split; vm_compute; reflexivity. Qed.
+End ExampleFull.
